@@ -4,8 +4,9 @@ from __future__ import annotations
 import ast
 
 from ..core import Ctx
-from ..match import Fact, arg, call_name, calls, fact_of, facts_at, local_defs, rchain, resolve, same_resolved, stores
-from ..model import AnalysisError, FuncInfo, ancestors, chain, const_value, enclosing_stmt, norm, strip_cast, walk_no_nested
+from ..match import Fact, _atoms_with_polarity, arg, call_name, calls, fact_of, facts_at, local_defs, rchain, resolve, same_resolved, stores
+from ..model import (NOCONST, AnalysisError, FuncInfo, ancestors, chain, clone, const_value, enclosing_stmt, norm, parent,
+                     set_parents, strip_cast, walk_no_nested)
 
 LEVEL = "other"
 EXPLANATION = (
@@ -15,8 +16,11 @@ EXPLANATION = (
     "shut down and the identifier is free, under the lock, and always registers the timeout task for that same cache; "
     "NumberCache.__init__ / find_unclaimed_identifier refuse numbers in use; shutdown sets the flag, cancels tasks and "
     "futures and clears the table under the lock; all five operations build the identifier through _create_identifier; "
-    "_identifiers is private to RequestCache; retrieve_cache turns a missing cache into a no-op. Same-iteration races of "
-    "pop and expiry are asyncio scheduling semantics and are not decided."
+    "_identifiers is private to RequestCache; retrieve_cache turns a missing cache into a no-op; add resolves futures of "
+    "the offered cache only when it refuses the cache at shutdown. Constructs are recognised by what they compute (all "
+    "definitions of a local, decision tags, dispatch tables, private signatures bound at the call site) and followed into "
+    "private helpers and generator helpers. Same-iteration races of pop and expiry are asyncio scheduling semantics and are "
+    "not decided."
 )
 
 RC = "ipv8/requestcache.py"
@@ -50,18 +54,118 @@ def _tstores(fi: FuncInfo) -> list[ast.Assign]:
     return out
 
 
+def _table_stores(fi: FuncInfo) -> list[tuple[ast.AST, ast.AST, ast.AST]]:
+    """every spelling that puts an entry into the table: (site, key, value) for `T[k] = v`, `T.__setitem__(k, v)`,
+    `T.setdefault(k, v)` and `T.update({k: v})`"""
+    out = [(st, st.targets[0].slice, st.value) for st in _tstores(fi)]
+    for c in _tcalls(fi, "__setitem__") + _tcalls(fi, "setdefault"):
+        if len(c.args) == 2 and not c.keywords:
+            out.append((c, c.args[0], c.args[1]))
+    for c in _tcalls(fi, "update"):
+        d = strip_cast(c.args[0]) if len(c.args) == 1 and not c.keywords else None
+        if isinstance(d, ast.Dict) and len(d.keys) == 1 and d.keys[0] is not None:
+            out.append((c, d.keys[0], d.values[0]))
+        else:
+            out.append((c, ast.Constant(None), ast.Constant(None)))      # an update whose entries are not spelled out: judged as unknown key
+    return out
+
+
 def _tdeletes(fi: FuncInfo) -> list[tuple[ast.Delete, ast.Subscript]]:
     """statements `del <table>[key]`"""
     return [(n, t) for n in walk_no_nested(fi.node) if isinstance(n, ast.Delete) for t in n.targets
             if isinstance(t, ast.Subscript) and _is_table(fi, t.value)]
 
 
-def _ident_call_ok(fi: FuncInfo, e: ast.AST, num: str, pre: str) -> bool:
-    e = resolve(fi, e)
-    if not (isinstance(e, ast.Call) and chain(e.func) == "self._create_identifier"):
+def _value_leaves(fi: FuncInfo, e: ast.AST, depth: int = 5) -> list[ast.AST]:
+    """The expressions a value can come from: both arms of a conditional expression and ALL definitions of a local name
+    (a parameter that is rebound contributes itself and its rebinding values).  Unknown definitions leave the name itself."""
+    e = strip_cast(e)
+    if depth <= 0:
+        return [e]
+    if isinstance(e, ast.IfExp):
+        return _value_leaves(fi, e.body, depth) + _value_leaves(fi, e.orelse, depth)
+    if isinstance(e, ast.Name):
+        defs = local_defs(fi, e.id)
+        out: list[ast.AST] = [e] if (e.id in fi.params() or not defs) else []
+        for _, v, idx in defs:
+            if v is None or idx is not None:
+                out.append(e)
+            else:
+                out += _value_leaves(fi, v, depth - 1)
+        return out
+    if isinstance(e, ast.Attribute) and isinstance(strip_cast(e.value), ast.Name) and strip_cast(e.value).id not in fi.params() \
+            and local_defs(fi, strip_cast(e.value).id):
+        # `<alias>.attr` where the alias has several (equal) definitions: the attribute of each value
+        bases = _value_leaves(fi, e.value, depth - 1)
+        if all(chain(b) is not None and not isinstance(b, ast.Call) for b in bases):
+            return [ast.Attribute(value=b, attr=e.attr, ctx=ast.Load()) for b in bases]
+    return [e]
+
+
+def _denotes(fi: FuncInfo, e: ast.AST | None, primary: str, also: tuple[str, ...] = ()) -> bool:
+    """every value e can take is the expression `primary` (or one of `also`), and `primary` is among them"""
+    if e is None:
         return False
-    a0, a1 = arg(e, 0, "number"), arg(e, 1, "prefix")
-    return a0 is not None and a1 is not None and norm(a0) == num and norm(a1) == pre
+    texts = {norm(x) for x in _value_leaves(fi, e)}
+    return primary in texts and texts <= {primary, *also}
+
+
+def _bind_call(call: ast.Call, tgt: FuncInfo) -> dict[str, ast.expr] | None:
+    """parameter name -> argument expression of a call to tgt (bound receiver skipped); None when it cannot be told"""
+    a = tgt.node.args
+    pos = [x.arg for x in a.posonlyargs + a.args]
+    if tgt.cls is not None and "staticmethod" not in tgt.decorator_names() and isinstance(call.func, ast.Attribute):
+        pos = pos[1:]
+    if any(isinstance(x, ast.Starred) for x in call.args) or any(k.arg is None for k in call.keywords) or len(call.args) > len(pos):
+        return None
+    out = dict(zip(pos, call.args))
+    for k in call.keywords:
+        if k.arg in out:
+            return None
+        out[k.arg] = k.value
+    return out
+
+
+def _ident_fn(fi: FuncInfo) -> FuncInfo | None:
+    """the function that builds the identifier string, as a method of fi's class or a function of fi's module"""
+    ci = fi.cls.lookup("_create_identifier") if fi.cls is not None else None
+    return ci or fi.module.functions.get("_create_identifier")
+
+
+def _ident_roles(ci: FuncInfo) -> tuple[str | None, str | None]:
+    """(number parameter, prefix parameter) of _create_identifier: by name; for other names by the order in which they
+    enter the reviewed '<prefix>:<number>' string; else by the reviewed positions (number, prefix)."""
+    ps = ci.params()
+    if ci.cls is not None and "staticmethod" not in ci.decorator_names():
+        ps = ps[1:]
+    if "number" in ps and "prefix" in ps:
+        return "number", "prefix"
+    rets = [r for r in walk_no_nested(ci.node) if isinstance(r, ast.Return) and r.value is not None]
+    parts = _string_parts(resolve(ci, rets[0].value)) if len(rets) == 1 else None
+    vals = [v for k, v in parts or [] if k == "val"]
+    if len(vals) == 2 and len(ps) == 2 and set(vals) == set(ps):
+        return vals[1], vals[0]
+    return (ps[0], ps[1]) if len(ps) >= 2 else (None, None)
+
+
+def _ident_call_ok(fi: FuncInfo, e: ast.AST, num: str, pre: str) -> bool:
+    """e is (on every definition that reaches it) `_create_identifier(..)` with the number parameter bound to `num` and the
+    prefix parameter bound to `pre`, whatever the argument order / keyword spelling of the private signature.  Where `pre`
+    is the caller's own prefix parameter, the class form `pre.name` is the same identity (has/get/pop convert it that way)."""
+    ci = _ident_fn(fi)
+    if ci is None or e is None:
+        return False
+    pnum, ppre = _ident_roles(ci)
+    leaves = _value_leaves(fi, e)
+    for x in leaves:
+        if not (isinstance(x, ast.Call) and call_name(x) == "_create_identifier"):
+            return False
+        b = _bind_call(x, ci)
+        if b is None or pnum is None:
+            return False
+        if not (_denotes(fi, b.get(pnum), num) and _denotes(fi, b.get(ppre), pre, (pre + ".name",) if "." not in pre else ())):
+            return False
+    return bool(leaves)
 
 
 def _absent_fact(fi: FuncInfo, f: Fact, is_key) -> bool:
@@ -83,6 +187,143 @@ def _present_fact(fi: FuncInfo, f: Fact, is_key=lambda e: True) -> bool:
 
 def _is_none(e: ast.AST | None) -> bool:
     return e is None or (isinstance(e, ast.Constant) and e.value is None)
+
+
+# --- decisions carried by a local: `refusal = "shutdown" | "duplicate" | None` assigned under the real tests and examined
+#     later (`if refusal == "shutdown":`).  A test of such a tag selects the assignments that can have produced the value;
+#     whatever held at every one of them held on this path too.
+def _const_leaves(e: ast.AST) -> list[ast.AST] | None:
+    """the constant alternatives of `c1 if t else c2 ...`; None when some alternative is not a constant"""
+    e = strip_cast(e)
+    if isinstance(e, ast.IfExp):
+        a, b = _const_leaves(e.body), _const_leaves(e.orelse)
+        return None if a is None or b is None else a + b
+    return [e] if const_value(e) is not NOCONST else None
+
+
+def _tag_vars(fi: FuncInfo) -> dict[str, list[tuple[ast.stmt, ast.AST, object]]]:
+    """locals that only ever hold constants: name -> [(assigning statement, constant expression (the site), value)]"""
+    hit = fi.node.__dict__.get("_c10_tags")
+    if hit is not None:
+        return hit
+    out: dict = {}
+    names = {n.id for n in walk_no_nested(fi.node) if isinstance(n, ast.Name) and isinstance(n.ctx, ast.Store)}
+    for v in sorted(names - set(fi.params())):
+        alts = []
+        for st, val, idx in local_defs(fi, v):
+            leaves = _const_leaves(val) if val is not None and idx is None else None
+            if leaves is None:
+                alts = None
+                break
+            alts += [(st, x, const_value(x)) for x in leaves]
+        if alts:
+            out[v] = alts
+    fi.node.__dict__["_c10_tags"] = out
+    return out
+
+
+def _tag_of(f: Fact, tags) -> tuple[str, Fact] | None:
+    """f as a fact about a tag variable (constant on the left normalised to the right)"""
+    if isinstance(f.left, ast.Name) and f.left.id in tags:
+        return f.left.id, f
+    if f.op == "eq" and isinstance(f.right, ast.Name) and f.right.id in tags:
+        return f.right.id, Fact(f.op, f.right, f.left, f.pos, f.atom)
+    return None
+
+
+def _consistent(k, f: Fact) -> bool:
+    """can a variable holding constant k satisfy fact f (about that variable)?  Unknown forms: yes."""
+    if f.op == "truthy":
+        return bool(k) is f.pos
+    c = const_value(f.right) if f.right is not None else NOCONST
+    if f.op == "eq" and c is not NOCONST:
+        return (k == c and isinstance(k, bool) == isinstance(c, bool)) is f.pos
+    if f.op == "is" and c is not NOCONST and (c is None or isinstance(c, bool)):
+        return (k is c) is f.pos
+    if f.op == "in" and isinstance(f.right, (ast.Tuple, ast.List, ast.Set)) and c is not NOCONST:
+        return (k in c) is f.pos
+    if f.op == "in" and isinstance(f.right, (ast.List, ast.Set)):
+        vals = [const_value(x) for x in f.right.elts]
+        if all(x is not NOCONST for x in vals):
+            return (k in vals) is f.pos
+    return True
+
+
+def _facts(fi: FuncInfo, cfg, site, depth: int = 2) -> list[Fact]:
+    """facts_at + what follows from them: tests of a tag variable bring in the facts common to all assignments of a value
+    consistent with the tests; a test of a single-assignment boolean local brings in the atoms of its defining expression."""
+    base = facts_at(cfg, site)
+    if depth <= 0:
+        return base
+    out = list(base)
+
+    def add(fs) -> None:
+        for x in fs:
+            if not any(x.atom is y.atom and x.pos == y.pos for y in out):
+                out.append(x)
+    tags = _tag_vars(fi)
+    about: dict[str, list[Fact]] = {}
+    for f in base:
+        t = _tag_of(f, tags)
+        if t is not None:
+            about.setdefault(t[0], []).append(t[1])
+        elif f.op == "truthy" and isinstance(f.left, ast.Name) and f.left.id not in fi.params():
+            d = local_defs(fi, f.left.id)
+            if len(d) == 1 and d[0][1] is not None and d[0][2] is None and isinstance(strip_cast(d[0][1]), (ast.BoolOp, ast.UnaryOp, ast.Compare)):
+                add(_atoms_with_polarity(strip_cast(d[0][1]), f.pos))
+    for v, fs in about.items():
+        feasible = [(st, x) for st, x, k in tags[v] if all(_consistent(k, f) for f in fs)]
+        if not feasible:
+            continue
+        per = [_facts(fi, cfg, x if isinstance(parent(x), ast.IfExp) else st, depth - 1) for st, x in feasible]
+        add([x for x in per[0] if all(any(x.atom is y.atom and x.pos == y.pos for y in o) for o in per[1:])])
+    return out
+
+
+def _reach_assuming(cfg, fi: FuncInfo, contradicts, *, cut_nodes=(), follow_exc: bool = True) -> set:
+    """Nodes reachable from the entry on paths that are feasible when no fact f with contradicts(f) ever holds: condition
+    edges with such a fact are not taken, and tag variables are tracked along the path (an assignment made where a
+    contradicting fact holds is not taken; a later test of the tag follows only the outcome its value allows)."""
+    tags = _tag_vars(fi)
+    defs_at: dict = {}
+    for v, alts in tags.items():
+        for st, x, k in alts:
+            site = x if isinstance(parent(x), ast.IfExp) else st
+            if any(contradicts(f) for f in facts_at(cfg, site)):
+                continue
+            for n in cfg.nodes_for(st):
+                if n.ast is st:
+                    defs_at.setdefault(n, {}).setdefault(v, []).append(k)
+    assigned = {n for v, alts in tags.items() for st, _, _ in alts for n in cfg.nodes_for(st) if n.ast is st}
+    cut_nodes = set(cut_nodes)
+    seen: set = set()
+    reached: set = set()
+    todo = [(cfg.entry, ())]
+    while todo:
+        u, env = todo.pop()
+        if (u, env) in seen or u in cut_nodes:
+            continue
+        seen.add((u, env))
+        reached.add(u)
+        envs = [dict(env)]
+        if u in assigned:
+            here = defs_at.get(u, {})
+            vs = [v for v, alts in tags.items() if any(n is u for st, _, _ in alts for n in cfg.nodes_for(st))]
+            for v in vs:
+                envs = [{**e, v: k} for e in envs for k in here.get(v, [])]
+        for e in envs:
+            for w, lab in u.succ:
+                if lab == "exc" and not follow_exc:
+                    continue
+                if u.kind == "cond" and lab in (True, False) and u.ast is not None:
+                    f = fact_of(u.ast, lab)
+                    if contradicts(f):
+                        continue
+                    t = _tag_of(f, tags)
+                    if t is not None and t[0] in e and not _consistent(e[t[0]], t[1]):
+                        continue
+                todo.append((w, tuple(sorted(e.items(), key=lambda kv: kv[0]))))
+    return reached
 
 
 # --- where do the elements of an iteration come from?  kinds: cache (a value of the table / the cache parameter),
@@ -114,7 +355,18 @@ def _elem_kind(fi: FuncInfo, e: ast.AST, env: dict, depth: int = 3) -> str | Non
         if e.id in env:
             return env[e.id]
         r = resolve(fi, e)
-        return _elem_kind(fi, r, env, depth - 1) if r is not e and depth > 0 else None
+        if r is not e:
+            return _elem_kind(fi, r, env, depth - 1) if depth > 0 else None
+        # `future, value = <pair>`: the first component of a pair
+        d = local_defs(fi, e.id)
+        if depth > 0 and len(d) == 1 and d[0][1] is not None and d[0][2] == 0 and e.id not in fi.params() \
+                and _elem_kind(fi, d[0][1], env, depth - 1) == "pair":
+            return "future"
+        # several definitions that all denote the same kind of thing
+        if depth > 0 and len(d) > 1 and e.id not in fi.params() and all(v is not None and idx is None for _, v, idx in d):
+            kinds = {_elem_kind(fi, v, env, depth - 1) for _, v, _ in d}
+            return kinds.pop() if len(kinds) == 1 else None
+        return None
     if isinstance(e, ast.Subscript) and isinstance(e.slice, ast.Constant) and e.slice.value == 0 and _elem_kind(fi, e.value, env, depth) == "pair":
         return "future"
     if isinstance(e, ast.Attribute) and e.attr == "managed_futures" and _elem_kind(fi, e.value, env, depth) == "cache":
@@ -132,6 +384,11 @@ def _seq_kind(fi: FuncInfo, e: ast.AST, env: dict, depth: int = 4) -> str | None
         return _seq_kind(fi, r, env, depth - 1) if r is not e else None
     if _elem_kind(fi, e, env) == "pairs":
         return "pair"
+    if isinstance(e, (ast.List, ast.Tuple, ast.Set)) and e.elts and not any(isinstance(x, ast.Starred) for x in e.elts):
+        # a literal collection of caches / of managed_futures lists (`[cache]`, `(cache.managed_futures,)`)
+        kinds = {_elem_kind(fi, x, env) for x in e.elts}
+        k = kinds.pop() if len(kinds) == 1 else None
+        return k if k in ("cache", "pairs", "pair") else None
     if isinstance(e, ast.Call):
         c = chain(e.func)
         if c in ("list", "tuple", "iter") and len(e.args) == 1 and not e.keywords and not isinstance(e.args[0], ast.Starred):
@@ -140,6 +397,15 @@ def _seq_kind(fi: FuncInfo, e: ast.AST, env: dict, depth: int = 4) -> str | None
             return "cache"
         if isinstance(e.func, ast.Attribute) and e.func.attr == "items" and not e.args and not e.keywords and _is_table(fi, e.func.value):
             return "item"
+        if c == "map" and len(e.args) == 2 and not e.keywords and _seq_kind(fi, e.args[1], env, depth - 1) == "pair":
+            # map(itemgetter(0), pairs) / map(lambda p: p[0], pairs): the futures of the pairs
+            f = strip_cast(resolve(fi, e.args[0]))
+            if isinstance(f, ast.Call) and (chain(f.func) or "").split(".")[-1] == "itemgetter" and len(f.args) == 1 and const_value(f.args[0]) == 0:
+                return "future"
+            if isinstance(f, ast.Lambda) and len(f.args.args) == 1 and not f.args.defaults and \
+                    _elem_kind(fi, f.body, {**env, f.args.args[0].arg: "pair"}) == "future":
+                return "future"
+            return None
         if c is not None and (c == "chain.from_iterable" or c.endswith(".chain.from_iterable")) and len(e.args) == 1 and not e.keywords:
             return "pair" if _seq_kind(fi, e.args[0], env, depth - 1) == "pairs" else None
         if c is not None and (c == "chain" or c.endswith("itertools.chain")) and len(e.args) == 1 and isinstance(e.args[0], ast.Starred) and not e.keywords:
@@ -157,12 +423,46 @@ def _seq_kind(fi: FuncInfo, e: ast.AST, env: dict, depth: int = 4) -> str | None
     return None
 
 
-def _site_kind(fi: FuncInfo, e: ast.AST, base_env: dict) -> tuple[str | None, list[ast.For]]:
-    """Kind of expression e at its place, from the enclosing for-statements (outermost first) + the loops that bind it."""
-    loops = [a for a in ancestors(e) if isinstance(a, (ast.For, ast.AsyncFor))]
+def _drain_items(fi: FuncInfo, w: ast.AST) -> list[ast.Assign]:
+    """`while <table>: .. = <table>.popitem()`: the loop takes entries out one by one until the table is empty, so it visits
+    every entry and leaves the table cleared.  -> the popitem assignments at the loop's own level ([] if w is no such loop)"""
+    if not isinstance(w, ast.While) or w.orelse:
+        return []
+    t = strip_cast(w.test)
+    if isinstance(t, ast.Call) and chain(t.func) == "len" and len(t.args) == 1:
+        t = t.args[0]
+    elif isinstance(t, ast.Compare) and len(t.ops) == 1 and isinstance(t.ops[0], (ast.Gt, ast.NotEq)) and const_value(t.comparators[0]) == 0 \
+            and isinstance(t.left, ast.Call) and chain(t.left.func) == "len" and len(t.left.args) == 1:
+        t = t.left.args[0]
+    if not _is_table(fi, t):
+        return []
+    out = []
+    for st in w.body:
+        v = strip_cast(st.value) if isinstance(st, ast.Assign) and len(st.targets) == 1 else None
+        if isinstance(v, ast.Call) and isinstance(v.func, ast.Attribute) and v.func.attr == "popitem" and not v.args and _is_table(fi, v.func.value):
+            out.append(st)
+    return out
+
+
+def _site_kind(fi: FuncInfo, e: ast.AST, base_env: dict) -> tuple[str | None, list[ast.AST]]:
+    """Kind of expression e at its place, from the enclosing binders (outermost first) + those binders: for-statements,
+    table-draining while loops and eagerly evaluated comprehensions (`[f.cancel() for .. in ..]`)."""
+    loops = [a for a in ancestors(e) if isinstance(a, (ast.For, ast.AsyncFor, ast.ListComp, ast.SetComp)) or _drain_items(fi, a)]
     loops = [l for l in loops if any(x is fi.node for x in ancestors(l))]
     env = dict(base_env)
     for l in reversed(loops):
+        if isinstance(l, ast.While):
+            for st in _drain_items(fi, l):
+                _unbind(st.targets[0], env)
+                _bind(st.targets[0], "item", env)
+            continue
+        if isinstance(l, (ast.ListComp, ast.SetComp)):
+            for g in l.generators:
+                _unbind(g.target, env)
+                k = None if (g.ifs or g.is_async) else _seq_kind(fi, g.iter, env)
+                if k is not None:
+                    _bind(g.target, k, env)
+            continue
         _unbind(l.target, env)
         k = _seq_kind(fi, l.iter, env)
         if k is not None:
@@ -180,11 +480,11 @@ def _only_done_guards(fi: FuncInfo, facts: list[Fact], fut: ast.AST) -> bool:
     for f in facts:
         l = resolve(fi, f.left)
         if f.op == "truthy" and not f.pos and isinstance(l, ast.Call) and isinstance(l.func, ast.Attribute) and l.func.attr in ("done", "cancelled") \
-                and norm(l.func.value) == norm(fut) and not l.args:
+                and _same_value(fi, l.func.value, fut) and not l.args:
             continue
-        if f.op == "is" and not f.pos and _is_none(f.right) and norm(f.left) == norm(fut):
+        if f.op == "is" and not f.pos and _is_none(f.right) and _same_value(fi, f.left, fut):
             continue
-        if f.op == "truthy" and f.pos and norm(f.left) == norm(fut):
+        if f.op == "truthy" and f.pos and _same_value(fi, f.left, fut):
             continue
         return False
     return True
@@ -213,6 +513,15 @@ def _string_parts(e: ast.AST) -> list[tuple[str, str]] | None:
         # an operand of str '+' that is a plain name is a string value itself
         a, b = ([("val", x.id)] if isinstance(x, ast.Name) else _string_parts(x) for x in (e.left, e.right))
         return None if a is None or b is None else a + b
+    if isinstance(e, ast.Call) and isinstance(e.func, ast.Attribute) and e.func.attr == "join" and isinstance(e.func.value, ast.Constant) \
+            and isinstance(e.func.value.value, str) and len(e.args) == 1 and not e.keywords and isinstance(e.args[0], (ast.Tuple, ast.List)):
+        out = []
+        for i, x in enumerate(e.args[0].elts):
+            px = [("val", x.id)] if isinstance(x, ast.Name) else _string_parts(x)
+            if px is None or isinstance(x, ast.Starred):
+                return None
+            out += ([("lit", e.func.value.value)] if i and e.func.value.value else []) + px
+        return out
     fmt, vals, holes = None, None, None
     if isinstance(e, ast.BinOp) and isinstance(e.op, ast.Mod) and isinstance(e.left, ast.Constant) and isinstance(e.left.value, str):
         fmt, holes = e.left.value, ("%s", "%d")
@@ -245,68 +554,455 @@ def _string_parts(e: ast.AST) -> list[tuple[str, str]] | None:
 
 
 # ------------------------------------------------------------------------------------ rules
+# --- lazy iteration made explicit.  `for T in <generator>: BODY` runs BODY once per yielded value, interleaved with the
+#     generator's own control flow, so it is the generator's code with `T = value; BODY` in place of every yield.  Rules
+#     about guards / complete traversal are decided on that expanded form (a private copy; /repo's trees are never touched).
+def _own_level(stmts: list, types) -> bool:
+    """a statement of one of `types` that belongs to this loop level (not to a nested loop / function)"""
+    for st in stmts:
+        if isinstance(st, types):
+            return True
+        if isinstance(st, (ast.For, ast.AsyncFor, ast.While, ast.FunctionDef, ast.AsyncFunctionDef, ast.ClassDef)):
+            if _own_level(getattr(st, "orelse", []), types):
+                return True
+            continue
+        for field in ("body", "orelse", "finalbody"):
+            if _own_level(getattr(st, field, None) or [], types):
+                return True
+        if isinstance(st, ast.Try) and any(_own_level(h.body, types) for h in st.handlers):
+            return True
+    return False
+
+
+class _Rename(ast.NodeTransformer):
+    def __init__(self, mapping: dict[str, str], subst: dict[str, ast.AST] | None = None) -> None:
+        self.mapping, self.subst = mapping, subst or {}
+
+    def visit_Name(self, n: ast.Name):
+        if n.id in self.subst and isinstance(n.ctx, ast.Load):
+            return ast.copy_location(clone(self.subst[n.id]), n)
+        if n.id in self.mapping:
+            return ast.copy_location(ast.Name(self.mapping[n.id], n.ctx), n)
+        return n
+
+
+def _store(t: ast.AST) -> ast.AST:
+    t = clone(t)
+    for x in ast.walk(t):
+        if isinstance(x, (ast.Name, ast.Tuple, ast.List, ast.Starred, ast.Attribute, ast.Subscript)) and isinstance(getattr(x, "ctx", None), ast.Load):
+            x.ctx = ast.Store()
+    return t
+
+
+def _names(node_or_list) -> set[str]:
+    nodes = node_or_list if isinstance(node_or_list, list) else [node_or_list]
+    return {x.id for n in nodes for x in ast.walk(n) if isinstance(x, ast.Name)}
+
+
+def _rewrite_blocks(node: ast.AST, fn) -> bool:
+    """replace statements s (in any block below node, not in nested functions) by fn(s) when that is not None"""
+    changed = False
+    blocks = [(node, f) for f in ("body", "orelse", "finalbody")] + [(h, "body") for h in getattr(node, "handlers", [])]
+    for owner, field in blocks:
+        blk = getattr(owner, field, None)
+        if not (isinstance(blk, list) and blk and isinstance(blk[0], ast.stmt)):
+            continue
+        new = []
+        for st in blk:
+            r = None if isinstance(st, (ast.FunctionDef, ast.AsyncFunctionDef, ast.ClassDef)) else fn(st)
+            if r is not None:
+                new.extend(r)
+                changed = True
+            else:
+                if not isinstance(st, (ast.FunctionDef, ast.AsyncFunctionDef, ast.ClassDef)):
+                    changed = _rewrite_blocks(st, fn) or changed
+                new.append(st)
+        setattr(owner, field, new)
+    return changed
+
+
+def _expand_genexp(fn_node: ast.AST, st: ast.For, g: ast.GeneratorExp) -> list | None:
+    """for T in (E for x in S if C ...): BODY   ->   for x in S: if C: ...: T = E; BODY"""
+    if any(x.is_async for x in g.generators) or _own_level(st.body, (ast.Break,)):
+        return None
+    if any(isinstance(x, (ast.Lambda, ast.ListComp, ast.SetComp, ast.DictComp, ast.GeneratorExp, ast.NamedExpr, ast.Yield, ast.YieldFrom, ast.Await))
+           for x in ast.walk(g) if x is not g):
+        return None
+    own = {x.id for gen in g.generators for x in ast.walk(gen.target) if isinstance(x, ast.Name)}
+    outside = {x.id for x in ast.walk(fn_node) if isinstance(x, ast.Name) and not any(a is g for a in ancestors(x))}
+    outside |= {a.arg for a in ast.walk(fn_node) if isinstance(a, ast.arg)} | _names(g.generators[0].iter)
+    mapping = {n: n + "_gx" for n in own if n in outside}
+    if any(m in outside or m in own for m in mapping.values()):
+        return None
+    rn = _Rename(mapping)
+    gens = []
+    for i, gen in enumerate(g.generators):
+        it = clone(gen.iter) if i == 0 else rn.visit(clone(gen.iter))
+        gens.append((rn.visit(clone(gen.target)), it, [rn.visit(clone(c)) for c in gen.ifs]))
+    elt = rn.visit(clone(g.elt))
+    inner = [ast.copy_location(ast.Assign([_store(st.target)], elt), st)] + clone(st.body)
+    for tgt, it, ifs in reversed(gens):
+        for c in reversed(ifs):
+            inner = [ast.copy_location(ast.If(c, inner, []), st)]
+        inner = [ast.copy_location(ast.For(tgt, it, inner, [], None), st)]
+    return inner
+
+
+def _generator_target(ctx: Ctx, fi: FuncInfo, call: ast.Call) -> tuple[FuncInfo | None, bool]:
+    """(the one generator function of this repository that `call` invokes, its shape can be expanded)"""
+    tg = [t for t in ctx.repo.resolve_call(fi, call) if isinstance(t, FuncInfo)]
+    if len(tg) != 1 or tg[0].is_async or tg[0].node is fi.node:
+        return None, False
+    t = tg[0]
+    own = list(walk_no_nested(t.node))
+    if not any(isinstance(x, (ast.Yield, ast.YieldFrom)) for x in own):
+        return None, False
+    a = t.node.args
+    if a.vararg or a.kwarg or any(d not in ("staticmethod", "classmethod") for d in t.decorator_names()):
+        return t, False
+    if any(isinstance(x, (ast.Return, ast.Try, ast.With, ast.AsyncWith, ast.Global, ast.Nonlocal, ast.Await, ast.NamedExpr,
+                          ast.FunctionDef, ast.AsyncFunctionDef, ast.ClassDef, ast.Lambda)) and x is not t.node for x in own):
+        return t, False
+    for x in own:
+        if isinstance(x, (ast.Yield, ast.YieldFrom)) and not isinstance(parent(x), ast.Expr):
+            return t, False
+    return t, True
+
+
+def _expand_gencall(fn_node: ast.AST, st: ast.For, call: ast.Call, t: FuncInfo) -> list | None:
+    """for T in helper(args): BODY   ->   helper's body with every `yield v` replaced by `T = v; BODY`"""
+    if _own_level(st.body, (ast.Break, ast.Continue)):
+        return None
+    a = t.node.args
+    params = [x.arg for x in a.posonlyargs + a.args + a.kwonlyargs]
+    bound: dict[str, ast.AST] = {}
+    pos = [x.arg for x in a.posonlyargs + a.args]
+    decs = t.decorator_names()
+    b = _bind_call(call, t)
+    if b is None:
+        return None
+    if t.cls is not None and "staticmethod" not in decs:
+        if not (isinstance(call.func, ast.Attribute) and pos):
+            return None
+        if "classmethod" not in decs:
+            bound[pos[0]] = call.func.value
+    bound.update(b)
+    allpos = a.posonlyargs + a.args
+    for p_, d in zip(allpos[len(allpos) - len(a.defaults):], a.defaults):
+        bound.setdefault(p_.arg, d)
+    for p_, d in zip(a.kwonlyargs, a.kw_defaults):
+        if d is not None:
+            bound.setdefault(p_.arg, d)
+    body = clone([x for i, x in enumerate(t.node.body)
+                  if not (i == 0 and isinstance(x, ast.Expr) and isinstance(x.value, ast.Constant) and isinstance(x.value.value, str))])
+    stored = {x.id for n in body for x in ast.walk(n) if isinstance(x, ast.Name) and isinstance(x.ctx, (ast.Store, ast.Del))}
+    caller_names = _names(fn_node) | {x.arg for x in ast.walk(fn_node) if isinstance(x, ast.arg)}
+    subst: dict[str, ast.AST] = {}
+    mapping: dict[str, str] = {}
+    pre: list = []
+    for p_ in params:
+        if p_ not in bound:
+            if p_ in _names(body):
+                return None
+            continue
+        v = bound[p_]
+        simple = isinstance(v, ast.Constant) or chain(v) is not None and not any(isinstance(x, (ast.Call, ast.Subscript)) for x in ast.walk(v))
+        if simple and p_ not in stored:
+            subst[p_] = v
+        else:
+            new = p_ + "_gen"
+            if new in caller_names:
+                return None
+            mapping[p_] = new
+            pre.append(ast.copy_location(ast.Assign([ast.Name(new, ast.Store())], clone(v)), st))
+    for n_ in stored - set(params):
+        if n_ in caller_names:
+            if n_ + "_gen" in caller_names:
+                return None
+            mapping[n_] = n_ + "_gen"
+    rn = _Rename(mapping, subst)
+    body = [rn.visit(x) for x in body]
+    sites = [0]
+
+    def repl(x):
+        if isinstance(x, ast.Expr) and isinstance(x.value, ast.Yield):
+            sites[0] += 1
+            v = x.value.value if x.value.value is not None else ast.Constant(None)
+            return [ast.copy_location(ast.Assign([_store(st.target)], v), st)] + clone(st.body)
+        if isinstance(x, ast.Expr) and isinstance(x.value, ast.YieldFrom):
+            sites[0] += 1
+            return [ast.copy_location(ast.For(_store(st.target), x.value.value, clone(st.body), [], None), st)]
+        return None
+    holder = ast.Module(body, [])
+    _rewrite_blocks(holder, repl)
+    if sites[0] != 1 or any(isinstance(x, (ast.Yield, ast.YieldFrom)) for n in holder.body for x in ast.walk(n)):
+        return None          # several yield points would duplicate BODY (and the definitions of T): left alone
+    return pre + holder.body
+
+
+def _view(ctx: Ctx, fi: FuncInfo) -> FuncInfo:
+    """fi, with every `for` over a filtered generator expression or over a call of a generator helper expanded in place"""
+    store = ctx.__dict__.setdefault("_c10_views", {})
+    hit = store.get(id(fi.node))
+    if hit is not None and hit[0] is fi.node:
+        return hit[1]
+    view = fi
+    if any(isinstance(x, ast.For) and isinstance(strip_cast(x.iter), (ast.GeneratorExp, ast.Call)) for x in walk_no_nested(fi.node)):
+        node = clone(fi.node)
+        changed = False
+        for _ in range(4):
+            set_parents(node)
+            tmp = FuncInfo(fi.name, fi.qualname, node, fi.module, fi.cls)
+
+            def fn(st, tmp=tmp, node=node):
+                if not isinstance(st, ast.For) or st.orelse:
+                    return None
+                it = strip_cast(st.iter)
+                if isinstance(it, ast.GeneratorExp) and any(g.ifs for g in it.generators):
+                    return _expand_genexp(node, st, it)
+                if isinstance(it, ast.Call):
+                    t, supported = _generator_target(ctx, tmp, it)
+                    r = _expand_gencall(node, st, it, t) if supported else None
+                    if t is not None and r is None:
+                        raise AnalysisError(f"undecided: {fi.qualname} iterates the generator helper {t.qualname} in a shape that cannot be expanded "
+                                            "(several yield points, try/with/return in the generator, break/continue in the loop body)")
+                    return r
+                return None
+            if not _rewrite_blocks(node, fn):
+                break
+            changed = True
+        if changed:
+            ast.fix_missing_locations(node)
+            set_parents(node)
+            view = FuncInfo(fi.name, fi.qualname, node, fi.module, fi.cls)
+    store[id(fi.node)] = (fi.node, view)
+    return view
+
+
 def _impl(ctx: Ctx, name: str) -> FuncInfo:
     impl = [f for f in ctx.repo.module(RC).all_functions if f.qualname == f"RequestCache.{name}" and not any("overload" in d for d in f.decorator_names())]
     ctx.anchor(impl, f"RequestCache.{name}")
     return impl[-1]
 
 
+def _removals(fi: FuncInfo) -> list[tuple[ast.AST, ast.AST | None, str]]:
+    """every way an entry leaves the table in fi: (site, key, 'pop' | 'del') for T.pop(key[, default]) and `del T[key]`"""
+    return [(p, arg(p, 0, "key"), "pop") for p in _tcalls(fi, "pop")] + [(d, t.slice, "del") for d, t in _tdeletes(fi)]
+
+
+def _is_var(fi: FuncInfo, e: ast.AST | None, var: str | None) -> bool:
+    """e is the local `var` (or a single-assignment alias of it)"""
+    if e is None or var is None:
+        return False
+    e = strip_cast(e)
+    if isinstance(e, ast.Name) and e.id == var:
+        return True
+    r = resolve(fi, e)
+    if isinstance(r, ast.Name) and r.id == var:
+        return True
+    leaves = _value_leaves(fi, e)
+    return bool(leaves) and all(isinstance(x, ast.Name) and x.id == var for x in leaves)
+
+
+def _claimed_vars(ctx: Ctx, fi: FuncInfo, site: ast.AST, key: ast.AST | None, how: str) -> list[str]:
+    """locals that hold the cache removed at `site`: the result of T.pop(key), or - for `del T[key]` - a read `T[key]` /
+    `T.get(key)` of the same key that is completed on every path to the removal"""
+    cfg = ctx.cfg(fi)
+    out = []
+    if how == "pop":
+        st = enclosing_stmt(site)
+        if isinstance(st, ast.Assign) and len(st.targets) == 1 and isinstance(st.targets[0], ast.Name) and strip_cast(st.value) is site:
+            out.append(st.targets[0].id)
+        elif isinstance(st, ast.AnnAssign) and isinstance(st.target, ast.Name) and st.value is not None and strip_cast(st.value) is site:
+            out.append(st.target.id)
+        return out
+    if key is None:
+        return out
+    for n in walk_no_nested(fi.node):
+        if not (isinstance(n, ast.Assign) and len(n.targets) == 1 and isinstance(n.targets[0], ast.Name)):
+            continue
+        v = strip_cast(n.value)
+        read = None
+        if isinstance(v, ast.Subscript) and _is_table(fi, v.value):
+            read = v.slice
+        elif isinstance(v, ast.Call) and isinstance(v.func, ast.Attribute) and v.func.attr == "get" and _is_table(fi, v.func.value) and len(v.args) == 1:
+            read = v.args[0]
+        if read is None or not same_resolved(fi, read, key) or len(local_defs(fi, n.targets[0].id)) != 1:
+            continue
+        dn = cfg.nodes_for(n)
+        if dn and all(cfg.must_complete(sn, dn) for sn in cfg.nodes_for(site)):
+            out.append(n.targets[0].id)
+    return out
+
+
+def _pop_via_helper(ctx: Ctx, fi: FuncInfo) -> bool:
+    """pop() hands the removal to a private method (`return self._claim(identifier)` / `cache = self._take(prefix, number)`):
+    the same three facts are decided across the call - the helper removes exactly the identifier built from pop's
+    (number, prefix) and lets the KeyError out; the removed cache's timeout task is cancelled on every path after the removal
+    (in the helper, or by pop on the helper's result); pop returns that cache."""
+    cfg = ctx.cfg(fi)
+    found = False
+    for c in calls(fi):
+        ch = chain(c.func) or ""
+        m = fi.cls.lookup(ch[5:]) if fi.cls is not None and ch.startswith("self.") and ch.count(".") == 1 else None
+        if m is None or m.node is fi.node or m.is_async or m.cls is not fi.cls:
+            continue
+        m = _view(ctx, m)
+        rem = _removals(m)
+        b = _bind_call(c, m)
+        if not rem or b is None:
+            continue
+        found = True
+        mc = ctx.cfg(m)
+        num, pre = fi.params()[2], fi.params()[1]
+        qnum = next((k for k, v in b.items() if _denotes(fi, v, num)), "?")
+        qpre = next((k for k, v in b.items() if _denotes(fi, v, pre, (pre + ".name",))), "?")
+
+        def key_ok(key, m=m, b=b, qnum=qnum, qpre=qpre, num=num, pre=pre) -> bool:
+            leaves = _value_leaves(m, key) if key is not None else []
+            return bool(leaves) and all(_ident_call_ok(fi, b[x.id], num, pre) if isinstance(x, ast.Name) and x.id in b and not local_defs(m, x.id)
+                                        else _ident_call_ok(m, x, qnum, qpre) for x in leaves)
+        # the variable of pop that receives the helper's result
+        st = enclosing_stmt(c)
+        outer = st.targets[0].id if isinstance(st, ast.Assign) and len(st.targets) == 1 and isinstance(st.targets[0], ast.Name) and strip_cast(st.value) is c else None
+        returned_directly = isinstance(st, ast.Return) and st.value is not None and strip_cast(st.value) is c
+        for p, key, how in rem:
+            vars_ = _claimed_vars(ctx, m, p, key, how)
+            inner = [n for x in calls(m, "self.cancel_pending_task") if any(_is_var(m, arg(x, 0, "name"), v) for v in vars_) for n in mc.nodes_for(x)]
+            in_helper = bool(vars_) and bool(inner) and all(mc.always_followed_by(pn, inner) for pn in mc.nodes_for(p))
+            rets = [r for r in walk_no_nested(m.node) if isinstance(r, ast.Return) and not _is_none(r.value)]
+            gives = bool(rets) and all(any(_is_var(m, r.value, v) for v in vars_) or strip_cast(resolve(m, r.value)) is p for r in rets)
+            outer_c = [n for x in calls(fi, "self.cancel_pending_task") if _is_var(fi, arg(x, 0, "name"), outer) for n in cfg.nodes_for(x)]
+            by_caller = gives and outer is not None and bool(outer_c) and all(cfg.always_followed_by(cn, outer_c) for cn in cfg.nodes_for(c)) \
+                and mc.exit not in mc.reach(cut_nodes=[n for r in rets for n in mc.nodes_for(r)])
+            ctx.check(in_helper or by_caller, "pop-cancels", m, p, "after _identifiers.pop(id) every normal path cancels that cache's timeout task",
+                      "a claimed request keeps its timeout task: the timeout fires after the response was handled")
+            raises = (how == "del" or (len(p.args) == 1 and not p.keywords)) and _catching_handler(p) is None and _catching_handler(c) is None
+            ctx.check(key_ok(key) and raises, "pop-cancels", m, p,
+                      "pop removes exactly _create_identifier(number, prefix) and raises KeyError when absent",
+                      "pop uses a different identifier or silently tolerates a missing cache (a late response would find a default)")
+            back = returned_directly or any(isinstance(r, ast.Return) and r.value is not None and _is_var(fi, r.value, outer) for r in walk_no_nested(fi.node))
+            ctx.check(gives and back, "pop-cancels", m, p, "pop returns the removed cache", "pop does not return the removed cache")
+    return found
+
+
 def rule_pop(ctx: Ctx) -> None:
     # overloads: the real implementation is the definition without @overload
-    fi = _impl(ctx, "pop")
+    fi = _view(ctx, _impl(ctx, "pop"))
     cfg = ctx.cfg(fi)
-    pops = ctx.anchor(_tcalls(fi, "pop"), "_identifiers.pop in pop")
-    for p in pops:
-        st = enclosing_stmt(p)
-        var = st.targets[0].id if isinstance(st, ast.Assign) and len(st.targets) == 1 and isinstance(st.targets[0], ast.Name) and strip_cast(st.value) is p else None
-        cancels = [c for c in calls(fi, "self.cancel_pending_task") if var is not None and (chain(arg(c, 0, "name")) == var)]
+    if not _removals(fi) and _pop_via_helper(ctx, fi):
+        return
+    rem = ctx.anchor(_removals(fi), "_identifiers.pop in pop")
+    for p, key, how in rem:
+        vars_ = _claimed_vars(ctx, fi, p, key, how)
+        cancels = [c for c in calls(fi, "self.cancel_pending_task") if any(_is_var(fi, arg(c, 0, "name"), v) for v in vars_)]
         cn = [n for c in cancels for n in cfg.nodes_for(c)]
-        ok = var is not None and bool(cn) and all(cfg.always_followed_by(pn, cn) for pn in cfg.nodes_for(p))
+        ok = bool(vars_) and bool(cn) and all(cfg.always_followed_by(pn, cn) for pn in cfg.nodes_for(p))
         ctx.check(ok, "pop-cancels", fi, p, "after _identifiers.pop(id) every normal path cancels that cache's timeout task",
                   "a claimed request keeps its timeout task: the timeout fires after the response was handled")
-        ctx.check(_ident_call_ok(fi, arg(p, 0), fi.params()[2], fi.params()[1]) and len(p.args) == 1 and not p.keywords, "pop-cancels", fi, p,
+        # a missing identifier must raise KeyError: one-argument dict.pop and `del` do; pop with a default only below a
+        # test that the key is registered
+        raises = how == "del" or (len(p.args) == 1 and not p.keywords) or \
+            any(_present_fact(fi, f, lambda e: key is not None and same_resolved(fi, e, key)) for f in _facts(fi, cfg, p))
+        ctx.check(_ident_call_ok(fi, key, fi.params()[2], fi.params()[1]) and raises, "pop-cancels", fi, p,
                   "pop removes exactly _create_identifier(number, prefix) and raises KeyError when absent",
                   "pop uses a different identifier or silently tolerates a missing cache (a late response would find a default)")
-        rets = [r for r in walk_no_nested(fi.node) if isinstance(r, ast.Return) and r.value is not None and var is not None and chain(strip_cast(r.value)) == var]
+        rets = [r for r in walk_no_nested(fi.node) if isinstance(r, ast.Return) and r.value is not None and any(_is_var(fi, r.value, v) for v in vars_)]
         ctx.check(bool(rets), "pop-cancels", fi, p, "pop returns the removed cache", "pop does not return the removed cache")
 
 
-def rule_on_timeout(ctx: Ctx) -> None:
-    fi = _impl(ctx, "_on_timeout")
+def _timeout_binding(ctx: Ctx, fi: FuncInfo) -> tuple[str, dict[str, tuple[FuncInfo, ast.AST, str]]]:
+    """How _on_timeout is handed its cache: add() registers `register_task(cache, self._on_timeout, *args, delay=..)`, so the
+    parameter of _on_timeout that receives add's cache is the expired cache (whatever its position), and any other
+    parameter stands for the expression add passes for it.  -> (cache parameter, {other parameter: (add, expression, add's cache)})"""
+    ps = fi.params()[1:]
+    try:
+        af, acache, _ = _add_body(ctx)
+    except AnalysisError:
+        return ps[0], {}
+    for c in calls(af, "self.register_task"):
+        t = arg(c, 1, "task")
+        if t is None or rchain(af, t) != "self._on_timeout" or any(isinstance(a, ast.Starred) for a in c.args):
+            continue
+        extra = list(c.args[2:])
+        named = {k.arg: k.value for k in c.keywords if k.arg in ps}
+        bound = dict(zip(ps, extra)) | named
+        q = next((k for k, v in bound.items() if _is_var(af, v, acache)), None)
+        if q is not None:
+            return q, {k: (af, v, acache) for k, v in bound.items() if k != q}
+    return ps[0], {}
+
+
+def _unregister_scan(ctx: Ctx, fi: FuncInfo, cache: str, depth: int = 2, handed: dict | None = None) -> dict:
+    """Where fi takes the identifier of `cache` out of the table, and which of fi's nodes can be reached while it may still
+    be registered.  A call `self.m(.., cache, ..)` of a method that cannot end normally with the identifier still registered
+    unregisters it as well (decision/action split: the helper may report what it found; only its effect matters here)."""
     cfg = ctx.cfg(fi)
-    cache = fi.params()[1]
 
-    def is_key(e):
-        return _ident_call_ok(fi, e, f"{cache}.number", f"{cache}.prefix")
-
-    ucalls = [c for c in calls(fi) if chain(c.func) == f"{cache}.on_timeout"]
-    ctx.check(len(ucalls) == 1 and not any(isinstance(a, (ast.For, ast.While)) for a in ancestors(ucalls[0])) if ucalls else False,
-              "timeout-unregisters-first", fi, fi.node, "cache.on_timeout() is called exactly once", "the timeout callback is called more or less than once")
-    # removal of the identifier:  T.pop(id) / T.pop(id, default) / del T[id]
-    removals = [(p, arg(p, 0)) for p in _tcalls(fi, "pop")] + [(d, t.slice) for d, t in _tdeletes(fi)]
-    ctx.anchor(removals, "_identifiers.pop in _on_timeout")
-    for p, key in removals:
-        ctx.check(key is not None and is_key(key), "timeout-unregisters-first", fi, p,
-                  "the expired cache's own identifier is removed", "_on_timeout removes a different identifier")
-    pn = [n for p, _ in removals for n in cfg.nodes_for(p)]
+    def is_key(e) -> bool:
+        # a parameter that the registration in add() fills with the identifier it stored under is that identifier
+        leaves = _value_leaves(fi, e)
+        return bool(leaves) and all(
+            _ident_call_ok(handed[x.id][0], handed[x.id][1], f"{handed[x.id][2]}.number", f"{handed[x.id][2]}.prefix")
+            if isinstance(x, ast.Name) and handed and x.id in handed and not local_defs(fi, x.id)
+            else _ident_call_ok(fi, x, f"{cache}.number", f"{cache}.prefix") for x in leaves)
+    rem3 = _removals(fi)
+    removals = [(fi, p, key is not None and is_key(key)) for p, key, _ in rem3]
+    # `del T[id]` / one-argument T.pop(id) raise KeyError exactly when the identifier is absent: where that KeyError is caught
+    # inside the function, leaving the removal by its exception edge is the outcome "not registered"
+    absent_exc = {n for p, _, how in rem3 if (how == "del" or (len(p.args) == 1 and not p.keywords)) and _catching_handler(p, ("KeyError", "LookupError")) is not None
+                  for n in cfg.nodes_for(p)}
+    done = [n for p, _, _ in rem3 for n in cfg.nodes_for(p)]
+    if depth > 0 and fi.cls is not None:
+        for c in calls(fi):
+            ch = chain(c.func) or ""
+            m = fi.cls.lookup(ch[5:]) if ch.startswith("self.") and ch.count(".") == 1 else None
+            if m is None or m.node is fi.node or m.is_async or m.cls is not fi.cls:
+                continue
+            b = _bind_call(c, m) or {}
+            q = next((k for k, v in b.items() if _is_var(fi, v, cache)), None)
+            if q is None:
+                continue
+            m = _view(ctx, m)
+            sub = _unregister_scan(ctx, m, q, depth - 1)
+            removals += sub["removals"]
+            if sub["removals"] and ctx.cfg(m).exit not in sub["registered"]:
+                done += cfg.nodes_for(c)
 
     def absent_edge(a, b, lab) -> bool:
         # leaving a test with the outcome "this identifier is not registered"
-        return a.kind == "cond" and lab in (True, False) and _absent_fact(fi, fact_of(a.ast, lab), is_key)
+        if lab == "exc" and a in absent_exc:
+            return True
+        return a.kind == "cond" and lab in (True, False) and (_absent_fact(fi, fact_of(a.ast, lab), is_key)
+                                                              or _has_fact(fi, fact_of(a.ast, lab), "self", f"{cache}.prefix", f"{cache}.number"))
+    return {"removals": removals, "registered": cfg.reach(cut_out_normal=done, cut_edge=absent_edge)}
 
+
+def rule_on_timeout(ctx: Ctx) -> None:
+    fi = _view(ctx, _impl(ctx, "_on_timeout"))
+    cfg = ctx.cfg(fi)
+    cache, handed = _timeout_binding(ctx, fi)
+    ucalls = [c for c in calls(fi) if chain(c.func) == f"{cache}.on_timeout"]
+    ctx.check(len(ucalls) == 1 and not any(isinstance(a, (ast.For, ast.While)) for a in ancestors(ucalls[0])) if ucalls else False,
+              "timeout-unregisters-first", fi, fi.node, "cache.on_timeout() is called exactly once", "the timeout callback is called more or less than once")
+    # removal of the identifier:  T.pop(id) / T.pop(id, default) / del T[id], here or in a helper that is handed the cache
+    scan = _unregister_scan(ctx, fi, cache, handed=handed)
+    ctx.anchor(scan["removals"], "_identifiers.pop in _on_timeout")
+    for f2, p, ok in scan["removals"]:
+        ctx.check(ok, "timeout-unregisters-first", f2, p,
+                  "the expired cache's own identifier is removed", "_on_timeout removes a different identifier")
     for u in ucalls:
         for un in cfg.nodes_for(u):
-            r = cfg.reach(cut_out_normal=pn, cut_edge=absent_edge)
-            ctx.check(un not in r, "timeout-unregisters-first", fi, u, "identifier removed (or already absent) before the user callback runs",
+            ctx.check(un not in scan["registered"], "timeout-unregisters-first", fi, u, "identifier removed (or already absent) before the user callback runs",
                       "on_timeout runs while the identifier is still registered: a pop from inside the callback, or a late response, resolves the request a second time")
-    sets = [c for c in calls(fi) if call_name(c) in ("set_result", "set_exception") and isinstance(c.func, ast.Attribute)]
-    ctx.floor("timeout-unregisters-first.futures", len(sets), 2)
+    sets = _completion_sites(fi)
+    ctx.floor("timeout-unregisters-first.futures", sum(len(alts) for _, alts in sets), 2)
     visited = False
-    for s in sets:
-        fs = facts_at(cfg, s)
-        base = s.func.value
-        ok = any(f.op == "truthy" and not f.pos and isinstance(resolve(fi, f.left), ast.Call) and isinstance(resolve(fi, f.left).func, ast.Attribute)
-                 and resolve(fi, f.left).func.attr == "done" and norm(resolve(fi, f.left).func.value) == norm(base) for f in fs)
+    for s, alts in sets:
+        fs = _facts(fi, cfg, s)
+        base = alts[0]
+        one_future = all(_same_value(fi, a, base) for a in alts)
+        ok = one_future and any(_done_fact(fi, f, base) for f in fs)
         un = [n for u in ucalls for n in cfg.nodes_for(u)]
         after = all(cfg.must_complete(sn, un) for sn in cfg.nodes_for(s))
         ctx.check(ok and after, "timeout-unregisters-first", fi, s, "managed future completed only if not done, after the callback",
@@ -314,6 +1010,69 @@ def rule_on_timeout(ctx: Ctx) -> None:
         kind, loops = _site_kind(fi, base, {cache: "cache"})
         visited = visited or (kind == "future" and _complete(loops))
     ctx.check(visited, "timeout-unregisters-first", fi, fi.node, "every managed future is visited", "not all futures tied to the cache are completed on timeout")
+
+
+def _same_value(fi: FuncInfo, a: ast.AST, b: ast.AST) -> bool:
+    """same expression after following single-assignment aliases (`future, value = entry_f, entry_v`)"""
+    return norm(a) == norm(b) or norm(resolve(fi, a)) == norm(resolve(fi, b))
+
+
+def _done_fact(fi: FuncInfo, f: Fact, fut: ast.AST) -> bool:
+    """the fact `not <fut>.done()`"""
+    if not (f.op == "truthy" and not f.pos):
+        return False
+    l = resolve(fi, f.left)
+    return isinstance(l, ast.Call) and isinstance(l.func, ast.Attribute) and l.func.attr == "done" and not l.args and _same_value(fi, l.func.value, fut)
+
+
+def _callee_alts(fi: FuncInfo, f: ast.AST, depth: int = 4) -> list[ast.AST]:
+    """What a callee expression can denote: a callable picked by a conditional expression, from ALL definitions of a local,
+    from a dict / tuple literal dispatch table (the set of its values) or by getattr with constant names."""
+    f = strip_cast(f)
+    if depth <= 0:
+        return [f]
+    if isinstance(f, ast.IfExp):
+        return _callee_alts(fi, f.body, depth) + _callee_alts(fi, f.orelse, depth)
+    if isinstance(f, ast.BoolOp):
+        return [x for v in f.values for x in _callee_alts(fi, v, depth)]
+    if isinstance(f, ast.Name):
+        defs = local_defs(fi, f.id)
+        if defs and f.id not in fi.params() and all(v is not None and idx is None for _, v, idx in defs):
+            return [x for _, v, _ in defs for x in _callee_alts(fi, v, depth - 1)]
+        return [f]
+    table = None
+    if isinstance(f, ast.Subscript):
+        table = resolve(fi, f.value)
+    elif isinstance(f, ast.Call) and isinstance(f.func, ast.Attribute) and f.func.attr == "get" and f.args:
+        table = resolve(fi, f.func.value)
+        if isinstance(table, ast.Dict) and len(f.args) == 2:
+            return [x for v in [*table.values, f.args[1]] for x in _callee_alts(fi, v, depth - 1)]
+    if isinstance(table, ast.Dict) and table.values and all(k is not None for k in table.keys):
+        return [x for v in table.values for x in _callee_alts(fi, v, depth - 1)]
+    if isinstance(table, (ast.Tuple, ast.List)) and isinstance(f, ast.Subscript) and table.elts and not any(isinstance(x, ast.Starred) for x in table.elts):
+        return [x for v in table.elts for x in _callee_alts(fi, v, depth - 1)]
+    if isinstance(f, ast.Call) and chain(f.func) == "getattr" and len(f.args) == 2 and not f.keywords:
+        names = [const_value(x) for x in _value_leaves(fi, f.args[1])]
+        if names and all(isinstance(n, str) for n in names):
+            return [ast.Attribute(value=f.args[0], attr=n, ctx=ast.Load()) for n in names]
+    return [f]
+
+
+def _receiver(c: ast.Call, a: ast.Attribute) -> ast.AST:
+    """the future a completion acts on: `<future>.set_result(v)`, or the first argument of the unbound `Future.set_result(<future>, v)`"""
+    if (chain(a.value) or "").split(".")[-1] == "Future" and c.args and not isinstance(c.args[0], ast.Starred):
+        return c.args[0]
+    return a.value
+
+
+def _completion_sites(fi: FuncInfo) -> list[tuple[ast.Call, list[ast.AST]]]:
+    """calls that complete a future: (call, the future of every `set_result` / `set_exception` method the call may invoke)"""
+    out = []
+    for c in calls(fi):
+        alts = [a for a in _callee_alts(fi, c.func) if isinstance(a, ast.Attribute) and a.attr in ("set_result", "set_exception")]
+        if alts:
+            out.append((c, [_receiver(c, a) for a in alts]))
+    return out
 
 
 def _delay_leaves(ctx: Ctx, fi: FuncInfo, e: ast.AST, bind: dict[str, str], depth: int = 3) -> list[str]:
@@ -328,27 +1087,22 @@ def _delay_leaves(ctx: Ctx, fi: FuncInfo, e: ast.AST, bind: dict[str, str], dept
         for _, v, idx in local_defs(fi, e.id):
             out += _delay_leaves(ctx, fi, v, bind, depth - 1) if v is not None and idx is None else ["?"]
         return out or [e.id]
-    if isinstance(e, ast.Call) and chain(e.func) is not None and chain(e.func).startswith("self.") and chain(e.func).count(".") == 1:
-        # a helper method that selects the delay: its return values, with parameters bound to our arguments
+    if isinstance(e, ast.Call) and chain(e.func) is not None and chain(e.func).count(".") <= 1 and ctx.repo.resolve_call(fi, e):
+        # a helper (method, static method or module function) that selects the delay: its return values, with parameters
+        # bound to our arguments
         out = []
-        for tgt in ctx.repo.resolve_call(fi, e) or []:
-            if not isinstance(tgt, FuncInfo) or tgt.is_async:
+        for tgt in ctx.repo.resolve_call(fi, e):
+            if not isinstance(tgt, FuncInfo) or tgt.is_async or tgt.name == "__init__":
                 return ["?"]
-            ps = tgt.params()[1:]
-            b2 = {}
-            for i, a in enumerate(e.args):
-                if isinstance(a, ast.Starred) or i >= len(ps):
-                    return ["?"]
-                b2[ps[i]] = _subst(norm(a), bind)
-            for k in e.keywords:
-                if k.arg is None:
-                    return ["?"]
-                b2[k.arg] = _subst(norm(k.value), bind)
+            b = _bind_call(e, tgt)
+            if b is None:
+                return ["?"]
+            b2 = {k: _subst_expr(v, bind) for k, v in b.items()}
             rets = [r for r in walk_no_nested(tgt.node) if isinstance(r, ast.Return)]
             for r in rets:
                 out += _delay_leaves(ctx, tgt, r.value, b2, depth - 1) if r.value is not None else ["None"]
         return out or ["?"]
-    return [_subst_expr(e, bind)]
+    return [_subst_expr(x, bind) for x in (_value_leaves(fi, e) if isinstance(e, ast.Attribute) else [e])]
 
 
 def _subst(text: str, bind: dict[str, str]) -> str:
@@ -364,31 +1118,65 @@ def _subst_expr(e: ast.AST, bind: dict[str, str]) -> str:
     return norm(e)
 
 
-def rule_add(ctx: Ctx) -> None:
-    fi = _impl(ctx, "add")
-    cfg = ctx.cfg(fi)
+def _holds_lock(n: ast.AST) -> bool:
+    return any(isinstance(a, (ast.With, ast.AsyncWith)) and any(chain(i.context_expr) == "self.lock" for i in a.items) for a in ancestors(n))
+
+
+def _add_body(ctx: Ctx) -> tuple[FuncInfo, str, bool]:
+    """The function that does add()'s work, the name the offered cache has there, and whether its caller already holds the
+    lock: add itself, or - when add no longer touches the table and only hands the cache on (`with self.lock: return
+    self._add_locked(cache)`) - the one private method it hands it to, provided add returns that method's result."""
+    fi = _view(ctx, _impl(ctx, "add"))
     cache = fi.params()[1]
+    if _table_stores(fi) or fi.cls is None:
+        return fi, cache, False
+    cands = []
+    for c in calls(fi):
+        ch = chain(c.func) or ""
+        m = fi.cls.lookup(ch[5:]) if ch.startswith("self.") and ch.count(".") == 1 else None
+        if m is None or m.node is fi.node or m.is_async or m.cls is not fi.cls:
+            continue
+        b = _bind_call(c, m) or {}
+        q = next((k for k, v in b.items() if _is_var(fi, v, cache)), None)
+        if q is not None and _table_stores(_view(ctx, m)):
+            cands.append((c, _view(ctx, m), q))
+    if len(cands) != 1:
+        return fi, cache, False
+    c, m, q = cands[0]
+    cfg = ctx.cfg(fi)
+    # add's result is the helper's result on every path that ends normally
+    rets = [r for r in walk_no_nested(fi.node) if isinstance(r, ast.Return) and r.value is not None and strip_cast(resolve(fi, r.value)) is c]
+    rn = [n for r in rets for n in cfg.nodes_for(r)]
+    if not rets or cfg.exit in cfg.reach(cut_nodes=rn, follow_exc=False):
+        return fi, cache, False
+    return m, q, _holds_lock(c)
+
+
+def rule_add(ctx: Ctx) -> None:
+    fi, cache, outer_lock = _add_body(ctx)
+    cfg = ctx.cfg(fi)
 
     def shut(f: Fact, pos: bool) -> bool:
         return f.op == "truthy" and f.pos is pos and chain(resolve(fi, f.left)) == "self._shutdown"
 
     def locked(n) -> bool:
-        return any(isinstance(a, ast.With) and any(chain(i.context_expr) == "self.lock" for i in a.items) for a in ancestors(n))
+        return outer_lock or _holds_lock(n)
 
-    sts = _tstores(fi)
-    ctx.anchor(sts, "_identifiers[...] = cache in add")
-    for st in sts:
-        fs = facts_at(cfg, st)
-        key = st.targets[0].slice
+    stores_ = _table_stores(fi)
+    ctx.anchor(stores_, "_identifiers[...] = cache in add")
+    sts = [st for st, _, _ in stores_]
+    for st, key, value in stores_:
+        fs = _facts(fi, cfg, st)
         not_shut = any(shut(f, False) for f in fs)
-        free = any(_absent_fact(fi, f, lambda e: same_resolved(fi, e, key)) for f in fs)
+        free = any(_absent_fact(fi, f, lambda e: same_resolved(fi, e, key)) or _has_fact(fi, f, "self", f"{cache}.prefix", f"{cache}.number") for f in fs)
         ident = _ident_call_ok(fi, key, f"{cache}.number", f"{cache}.prefix")
-        ctx.check(not_shut and free and locked(st) and ident and chain(st.value) == cache, "add-gates", fi, st,
+        ctx.check(not_shut and free and locked(st) and ident and _is_var(fi, value, cache), "add-gates", fi, st,
                   "store dominated by not _shutdown and identifier not in _identifiers, under the lock, keyed by _create_identifier(number, prefix)",
                   f"a cache can be added after shutdown / over a live identifier / outside the lock (not_shutdown={not_shut} free={free} locked={locked(st)} ident={ident})",
                   [str(f) for f in fs])
-        regs = [c for c in calls(fi, "self.register_task") if chain(arg(c, 0, "name")) == cache and chain(arg(c, 1, "task")) == "self._on_timeout"
-                and chain(arg(c, 2)) == cache and arg(c, None, "delay") is not None]
+        regs = [c for c in calls(fi, "self.register_task") if _is_var(fi, arg(c, 0, "name"), cache) and arg(c, 1, "task") is not None
+                and rchain(fi, arg(c, 1, "task")) == "self._on_timeout" and arg(c, None, "delay") is not None
+                and any(_is_var(fi, a, cache) for a in [*c.args[2:], *[k.value for k in c.keywords if k.arg != "delay"]])]
         rn = [n for c in regs for n in cfg.nodes_for(c)]
         ok = bool(rn) and all(cfg.always_followed_by(sn, rn) for sn in cfg.nodes_for(st))
         ctx.check(ok, "add-gates", fi, st, "every registered cache gets its timeout task register_task(cache, _on_timeout, cache, delay=..)",
@@ -398,80 +1186,154 @@ def rule_add(ctx: Ctx) -> None:
             ok_d = f"{cache}.timeout_delay" in leaves
             ctx.check(ok_d, "add-gates", fi, c, "timeout delay is the cache's timeout_delay (or the passthrough override)",
                       "the timeout task is not scheduled with the cache's own timeout_delay", [f"delay values: {sorted(set(leaves))}"])
-    # success is reported only after the store: every other way out (shutdown, duplicate) returns None
+    # success is reported only after the store: every other way out (shutdown, duplicate) returns None.  A returned local
+    # (result variable) is judged by its definitions: each one that is not None must itself come after the store.
     sn = [n for st in sts for n in cfg.nodes_for(st)]
+
+    def after_store(x: ast.AST) -> bool:
+        return all(cfg.must_complete(n, sn) for n in cfg.nodes_for(x))
+
+    def unstored_sources(r: ast.Return) -> list[ast.AST]:
+        v = strip_cast(r.value) if r.value is not None else None
+        if _is_none(v):
+            return []
+        if isinstance(v, ast.Name) and v.id not in fi.params():
+            defs = local_defs(fi, v.id)
+            if defs and all(val is not None and idx is None for _, val, idx in defs):
+                return [st for st, val, _ in defs if not _is_none(strip_cast(val)) and not after_store(st)]
+        return [] if after_store(r) else [r]
     for r in [r for r in walk_no_nested(fi.node) if isinstance(r, ast.Return)]:
-        fs = facts_at(cfg, r)
-        stored = all(cfg.must_complete(n, sn) for n in cfg.nodes_for(r))
+        fs = _facts(fi, cfg, r)
+        bad = unstored_sources(r)
         if any(shut(f, True) for f in fs):
-            ctx.check(_is_none(r.value), "add-gates", fi, r, "add after shutdown returns None", "add after shutdown reports success")
-        elif any(_present_fact(fi, f) for f in fs):
-            ctx.check(_is_none(r.value), "add-gates", fi, r, "duplicate add returns None", "duplicate add reports success")
-        elif not stored:
-            ctx.check(_is_none(r.value), "add-gates", fi, r, "add returns None unless the cache was stored", "add reports success without having stored the cache")
+            ctx.check(not bad, "add-gates", fi, r, "add after shutdown returns None", "add after shutdown reports success")
+        elif any(_present_fact(fi, f) or _has_fact(fi, Fact(f.op, f.left, f.right, not f.pos, f.atom), "self", f"{cache}.prefix", f"{cache}.number") for f in fs):
+            ctx.check(not bad, "add-gates", fi, r, "duplicate add returns None", "duplicate add reports success")
+        elif not after_store(r):
+            ctx.check(not bad, "add-gates", fi, r, "add returns None unless the cache was stored", "add reports success without having stored the cache")
     # the shutdown branch cancels the futures tied to the refused cache
     cancels = []
     for c in calls(fi):
-        if call_name(c) == "cancel" and isinstance(c.func, ast.Attribute) and any(shut(f, True) for f in facts_at(cfg, c)):
+        if call_name(c) == "cancel" and isinstance(c.func, ast.Attribute) and any(shut(f, True) for f in _facts(fi, cfg, c)):
             kind, loops = _site_kind(fi, c.func.value, {cache: "cache"})
             if kind == "future" and _complete(loops):
                 cancels.append((c, loops))
     ctx.check(bool(cancels), "add-gates", fi, fi.node, "futures of a cache refused at shutdown are cancelled",
               "futures tied to a cache that is refused after shutdown are left pending forever")
     if cancels:
+        # no way through add that is possible while _shutdown is set gets to the end without passing such a loop
         ln = [n for _, loops in cancels for n in cfg.nodes_for(loops[-1])]
-        conds = [n for n in cfg.nodes if n.kind == "cond" and chain(resolve(fi, n.ast)) == "self._shutdown"]
-        firsts = [v for n in conds for v, lab in n.succ if lab is True]
-        r = cfg.reach(firsts, cut_nodes=ln, follow_exc=False)
-        ctx.check(bool(firsts) and cfg.exit not in r, "add-gates", fi, cancels[0][0], "every refusal at shutdown passes the loop that cancels the tied futures",
+        r = _reach_assuming(cfg, fi, lambda f: shut(f, False), cut_nodes=ln, follow_exc=False)
+        ctx.check(cfg.exit not in r, "add-gates", fi, cancels[0][0], "every refusal at shutdown passes the loop that cancels the tied futures",
                   "a path refuses the cache at shutdown without cancelling its futures")
+    # ... and only there: while the table accepts requests, the offered cache may be the outstanding one itself (re-add) or
+    # share its futures with it; a tied future is resolved by the response or the timeout, never by a refused add
+    for c in calls(fi):
+        alts = [a for a in _callee_alts(fi, c.func) if isinstance(a, ast.Attribute) and a.attr in ("cancel", "set_result", "set_exception")]
+        if alts and any(_site_kind(fi, a.value, {cache: "cache"})[0] == "future" for a in alts):
+            ctx.check(any(shut(f, True) for f in _facts(fi, cfg, c)), "add-gates", fi, c,
+                      "add resolves futures of the offered cache only when it refuses the cache at shutdown",
+                      "add cancels / completes the managed futures of a cache it refuses (or stores) while not shut down: when that cache is the "
+                      "outstanding request itself, or shares its futures, the outstanding request's futures are resolved without response or timeout")
     # NumberCache.__init__
     ni = ctx.repo.method("NumberCache", "__init__", RC)
     cfgn = ctx.cfg(ni)
     p = ni.params()
     for st, t in stores(ni, ["self._prefix", "self._number"]):
-        fs = facts_at(cfgn, st)
+        fs = _facts(ni, cfgn, st)
         ok = any(_has_fact(ni, f, p[1], p[2], p[3]) for f in fs)
         ctx.check(ok, "duplicate-guard", ni, st, "NumberCache construction dominated by not request_cache.has(prefix, number)",
                   "a second request can take a (prefix, number) identity that is still outstanding", [str(f) for f in fs])
     _find_unclaimed(ctx)
-    # has / get use the same identifier construction
+    # has / get use the same identifier construction (directly, or by handing (prefix, number) unchanged to the other one)
+    direct = {}
     for name in ("has", "get"):
-        f2 = _impl(ctx, name)
-        cs = calls(f2, "self._create_identifier")
-        ok = len(cs) == 1 and _ident_call_ok(f2, cs[0], f2.params()[2], f2.params()[1])
+        f2 = _view(ctx, _impl(ctx, name))
+        cs = [c for c in calls(f2) if call_name(c) == "_create_identifier"]
+        direct[name] = (f2, cs)
+    for name, other in (("has", "get"), ("get", "has")):
+        f2, cs = direct[name]
+        ok = bool(cs) and all(_ident_call_ok(f2, c, f2.params()[2], f2.params()[1]) for c in cs)
+        if not cs and direct[other][1]:
+            dl = [c for c in calls(f2, f"self.{other}") if _denotes(f2, arg(c, 0, "prefix"), f2.params()[1], (f2.params()[1] + ".name",))
+                  and _denotes(f2, arg(c, 1, "number"), f2.params()[2])]
+            ok = bool(dl)
         ctx.check(ok, "duplicate-guard", f2, f2.node, f"{name} keys by _create_identifier(number, prefix)", f"{name} builds a different identifier than add")
-    ci = _impl(ctx, "_create_identifier")
+    ci = _ident_fn(fi)
+    ctx.anchor(ci, "RequestCache._create_identifier")
+    pnum, ppre = _ident_roles(ci)
     rets = [r for r in walk_no_nested(ci.node) if isinstance(r, ast.Return)]
     parts = _string_parts(resolve(ci, rets[0].value)) if len(rets) == 1 and rets[0].value is not None else None
-    ok = parts is not None and [v for k, v in parts if k == "val"] == [ci.params()[2], ci.params()[1]]
+    vals = [v for k, v in parts or [] if k == "val"]
+    # both components enter the string exactly once, with a separator between them that cannot be part of a number
+    # (without one, ('a1', 2) and ('a', 12) would share an identity)
+    sep = parts is not None and len(parts) >= 3 and any(k == "lit" and v and not any(ch.isdigit() or ch == "-" for ch in v)
+                                                        for k, v in parts[parts.index(("val", vals[0])) + 1:parts.index(("val", vals[-1]))]) \
+        if len(vals) == 2 and vals[0] != vals[1] else False
+    ok = parts is not None and sorted(vals) == sorted([ppre, pnum]) and bool(sep)
     ctx.check(ok, "duplicate-guard", ci, ci.node, "identifier = f'{prefix}:{number}'", "identifier no longer determined by (prefix, number)")
 
 
 def _has_fact(fi: FuncInfo, f: Fact, recv: str, prefix: str, number: str) -> bool:
-    """fact `not <recv>.has(prefix, number)`"""
-    if not (f.op == "truthy" and not f.pos):
+    """fact `not <recv>.has(prefix, number)`  (also spelled `<recv>.get(prefix, number) is None` / `not <recv>.get(..)`)"""
+    free = (f.op == "truthy" and not f.pos) or (f.op == "is" and f.pos and _is_none(f.right))
+    if not free:
         return False
     c = resolve(fi, f.left)
-    if not (isinstance(c, ast.Call) and chain(c.func) == f"{recv}.has"):
+    if not (isinstance(c, ast.Call) and chain(c.func) in (f"{recv}.has", f"{recv}.get")):
+        return False
+    if f.op == "is" and chain(c.func) != f"{recv}.get":
         return False
     a0, a1 = arg(c, 0, "prefix"), arg(c, 1, "number")
-    return a0 is not None and a1 is not None and norm(a0) == prefix and norm(a1) == number
+    return a0 is not None and a1 is not None and prefix in (norm(a0), norm(resolve(fi, a0))) and number in (norm(a1), norm(resolve(fi, a1)))
+
+
+def _next_accepted(fu: FuncInfo, v: str, recv: str, prefix: str) -> tuple[bool, bool]:
+    """Every definition of v is `next(<generator expression>[, None])` whose elements are filtered by `not has(prefix, element)`:
+    v is an accepted number or the default.  -> (recognised, has a None default)"""
+    defs = local_defs(fu, v)
+    if not defs or v in fu.params():
+        return False, False
+    default = False
+    for _, val, idx in defs:
+        val = strip_cast(val) if val is not None else None
+        if idx is not None or not (isinstance(val, ast.Call) and chain(val.func) == "next" and 1 <= len(val.args) <= 2 and not val.keywords):
+            return False, False
+        if len(val.args) == 2:
+            if not _is_none(val.args[1]):
+                return False, False
+            default = True
+        g = resolve(fu, val.args[0])
+        if not (isinstance(g, ast.GeneratorExp) and isinstance(g.elt, ast.Name)):
+            return False, False
+        last = g.generators[-1]
+        if not (isinstance(last.target, ast.Name) and last.target.id == g.elt.id):
+            return False, False
+        if not any(_has_fact(fu, f, recv, prefix, g.elt.id) for c in last.ifs for f in _atoms_with_polarity(c, True)):
+            return False, False
+    return True, default
 
 
 def _find_unclaimed(ctx: Ctx) -> None:
     """RandomNumberCache.find_unclaimed_identifier: a number leaves the function only through the outcome `not has(prefix, number)`
     of a test made after the number's last assignment; every other way out raises."""
-    fu = ctx.repo.method("RandomNumberCache", "find_unclaimed_identifier", RC)
+    fu = _view(ctx, ctx.repo.method("RandomNumberCache", "find_unclaimed_identifier", RC))
     cfg = ctx.cfg(fu)
     p = fu.params()
     rets = [r for r in walk_no_nested(fu.node) if isinstance(r, ast.Return)]
     ok = bool(rets)
     accept_all = []
+    filtered = []          # returns of a value that a filtering generator already accepted
     for r in rets:
         v = strip_cast(r.value) if r.value is not None else None
         if not isinstance(v, ast.Name):
             ok = False
+            continue
+        known, default = _next_accepted(fu, v.id, p[1], p[2])
+        if known:
+            ok = ok and (not default or any(f.op == "is" and not f.pos and _is_none(f.right) and isinstance(f.left, ast.Name) and f.left.id == v.id
+                                            for f in _facts(fu, cfg, r)))
+            filtered += cfg.nodes_for(r)
             continue
         accept = [(n, lab) for n in cfg.nodes if n.kind == "cond" for lab in (True, False) if _has_fact(fu, fact_of(n.ast, lab), p[1], p[2], v.id)]
         accept_all += accept
@@ -483,28 +1345,56 @@ def _find_unclaimed(ctx: Ctx) -> None:
         reach = cfg.reach(starts, cut_edge=cut)
         ok = ok and bool(accept) and not any(n in reach for n in cfg.nodes_for(r))
     # exhaustion raises: no normal exit without an accepted number
-    ok = ok and cfg.exit not in cfg.reach(cut_edge=lambda a, b, lab: any(a is n and lab is l for n, l in accept_all))
+    ok = ok and cfg.exit not in cfg.reach(cut_edge=lambda a, b, lab: any(a is n and lab is l for n, l in accept_all), cut_nodes=filtered)
     ctx.check(ok, "duplicate-guard", fu, fu.node, "random identifier accepted only if not in use; exhaustion raises",
               "find_unclaimed_identifier can return a number that is in use")
 
 
+def _delegate(ctx: Ctx, fi: FuncInfo, has_anchor) -> tuple[FuncInfo, ast.Call | None]:
+    """fi, or - when fi lacks the construct (has_anchor(fi) is empty) and exactly one method of its class that fi calls on
+    every normal path has it - that method and the call: the anchor function became a thin delegation."""
+    if has_anchor(fi) or fi.cls is None:
+        return fi, None
+    cfg = ctx.cfg(fi)
+    cands = []
+    for c in calls(fi):
+        ch = chain(c.func) or ""
+        m = fi.cls.lookup(ch[5:]) if ch.startswith("self.") and ch.count(".") == 1 else None
+        if m is None or m.node is fi.node or m.cls is not fi.cls:
+            continue
+        m = _view(ctx, m)
+        if has_anchor(m) and cfg.exit not in cfg.reach(cut_nodes=cfg.nodes_for(c), follow_exc=False):
+            cands.append((m, c))
+    return cands[0] if len(cands) == 1 else (fi, None)
+
+
 def rule_shutdown(ctx: Ctx) -> None:
-    fi = _impl(ctx, "shutdown")
+    outer = _view(ctx, _impl(ctx, "shutdown"))
+    fi, via = _delegate(ctx, outer, lambda f: [s for s, t in stores(f, "self._shutdown") if const_value(s.value) is True])
     cfg = ctx.cfg(fi)
 
     def locked(n):
-        return any(isinstance(a, (ast.With, ast.AsyncWith)) and any(chain(i.context_expr) == "self.lock" for i in a.items) for a in ancestors(n))
+        return _holds_lock(n) or (via is not None and _holds_lock(via))
     flag = [s for s, t in stores(fi, "self._shutdown") if const_value(s.value) is True]
-    cancel_all = calls(fi, "self.cancel_all_pending_tasks")
-    clears = _tcalls(fi, "clear")
+    cancel_all = _effect_sites(ctx, fi, lambda f: calls(f, "self.cancel_all_pending_tasks"))
+    clears = _effect_sites(ctx, fi, lambda f: _tcalls(f, "clear"))
     # <future>.cancel() for every future of every cache in the table, whatever the loop / comprehension spelling
     fut_cancel = []
+    ordered = []          # what has to happen before the table is cleared: the cancel loop, or the eager copy it walks
+    # a loop that drains the table entry by entry both reads every cache and leaves the table empty
+    drain_like = [w for w in walk_no_nested(fi.node) if _drain_items(fi, w)]
+    drains = [w for w in drain_like if _complete([w])]
     for c in calls(fi):
         if call_name(c) == "cancel" and isinstance(c.func, ast.Attribute) and not c.args:
             kind, loops = _site_kind(fi, c.func.value, {})
-            if kind == "future" and _complete(loops) and _only_done_guards(fi, facts_at(cfg, c), c.func.value):
+            guards = [f for f in facts_at(cfg, c) if not any(f.atom is x for w in drains for x in ast.walk(w.test))]
+            if kind == "future" and _complete(loops) and _only_done_guards(fi, guards, c.func.value):
                 fut_cancel.append(c)
-    reads = _tcalls(fi, "values") + _tcalls(fi, "items")
+                ordered.append(_snapshot_stmt(fi, loops) or c)
+    reads = _tcalls(fi, "values") + _tcalls(fi, "items") + [st for w in drains for st in _drain_items(fi, w)]
+    if not clears and not drain_like and (_tcalls(fi, "popitem") or _tcalls(fi, "pop")) and flag and cancel_all:
+        raise AnalysisError("undecided: RequestCache.shutdown empties _identifiers entry by entry (pop / popitem) in a way that is not recognised")
+    clears = clears + drains
     ok = bool(flag) and bool(cancel_all) and bool(clears) and bool(fut_cancel) and bool(reads) and all(locked(x) for x in flag + cancel_all + clears + fut_cancel + reads)
     ctx.check(ok, "shutdown", fi, fi.node, "shutdown: flag, cancel all tasks, cancel every tied future, clear table - all under the lock",
               "shutdown leaves timeouts armed, futures pending or the table populated")
@@ -513,13 +1403,55 @@ def rule_shutdown(ctx: Ctx) -> None:
         fn = [n for s in flag for n in cfg.nodes_for(s)]
         ctx.check(all(cfg.must_complete(n, fn) for c in cancel_all for n in cfg.nodes_for(c)), "shutdown", fi, cancel_all[0],
                   "_shutdown set before tasks are cancelled", "tasks are cancelled before the shutdown flag is set: a callback can re-add")
-        cl = [n for c in clears for n in cfg.nodes_for(c)]
-        after_clear = cfg.reach([v for n in cl for v, lab in n.succ])
-        ctx.check(not any(n in after_clear for x in reads + fut_cancel for n in cfg.nodes_for(x)), "shutdown", fi, clears[0],
+        cl = [n for c in clears if c not in drains for n in cfg.nodes_for(c)]
+        emptied = [v for w in drains for n in cfg.nodes if n.kind == "cond" and any(n.ast is x for x in ast.walk(w.test)) for v, lab in n.succ if lab is False]
+        after_clear = cfg.reach([v for n in cl for v, lab in n.succ] + emptied)
+        ctx.check(not any(n in after_clear for x in reads + ordered for n in cfg.nodes_for(x)), "shutdown", fi, clears[0],
                   "tied futures are cancelled before the table is cleared", "the table is cleared before the tied futures are cancelled (nothing left to cancel)")
     clr = _impl(ctx, "clear")
-    ok = bool(calls(clr, "self.cancel_all_pending_tasks")) and bool(_tcalls(clr, "clear"))
+    ok = bool(_effect_sites(ctx, clr, lambda f: calls(f, "self.cancel_all_pending_tasks"))) and bool(_effect_sites(ctx, clr, lambda f: _tcalls(f, "clear")))
     ctx.check(ok, "shutdown", clr, clr.node, "clear cancels all timeout tasks and empties the table", "clear leaves timeout tasks armed")
+
+
+def _effect_sites(ctx: Ctx, fi: FuncInfo, finder, depth: int = 2) -> list[ast.AST]:
+    """Where fi performs an effect: the sites finder(fi) itself, and calls `self.m(..)` of a method m of the same class
+    that performs the effect on every path to its normal exit (shutdown reusing clear(), an extracted step)."""
+    out = list(finder(fi))
+    if depth <= 0 or fi.cls is None:
+        return out
+    for c in calls(fi):
+        ch = chain(c.func) or ""
+        if not (ch.startswith("self.") and ch.count(".") == 1):
+            continue
+        m = fi.cls.lookup(ch[5:])
+        if m is None or m.node is fi.node or m.is_async or m.cls is not fi.cls:
+            continue
+        sub = _effect_sites(ctx, m, finder, depth - 1)
+        if not sub:
+            continue
+        mc = ctx.cfg(m)
+        sn = [n for x in sub for n in mc.nodes_for(x)]
+        if sn and mc.exit not in mc.reach(cut_nodes=sn, follow_exc=False):
+            out.append(c)
+    return out
+
+
+def _snapshot_stmt(fi: FuncInfo, loops: list[ast.For]) -> ast.stmt | None:
+    """The assignment that copies the table's caches eagerly (list / tuple / sorted / list comprehension) into the local the
+    outermost loop walks: the traversal then no longer depends on the table.  None for live views and lazy generators."""
+    if not loops or not isinstance(loops[-1], (ast.For, ast.AsyncFor)):
+        return None
+    it = strip_cast(loops[-1].iter)
+    if not isinstance(it, ast.Name):
+        return None
+    d = local_defs(fi, it.id)
+    if len(d) != 1 or d[0][1] is None or d[0][2] is not None:
+        return None
+    v = strip_cast(d[0][1])
+    eager = isinstance(v, ast.ListComp) or (isinstance(v, ast.Call) and chain(v.func) in ("list", "tuple", "sorted"))
+    reads_table = any(isinstance(x, ast.Call) and isinstance(x.func, ast.Attribute) and x.func.attr in ("values", "items") and _is_table(fi, x.func.value)
+                      for x in ast.walk(v))
+    return d[0][0] if eager and reads_table else None
 
 
 def rule_who(ctx: Ctx) -> None:
@@ -531,20 +1463,23 @@ def rule_who(ctx: Ctx) -> None:
         ctx.check(fi is not None and fi.cls is rc, "table-writers", fi or m.relpath, enclosing_stmt(a), "_identifiers used only inside RequestCache",
                   "the identifier table is accessed from outside RequestCache")
     ctx.floor("table-writers", n, 8)
-    rf = repo.func("ipv8/lazy_community.py", "retrieve_cache.decorator.wrapper")
+    rf = _view(ctx, _retrieve_wrapper(ctx))
+    cfg = ctx.cfg(rf)
     pops = [c for c in calls(rf) if call_name(c) == "pop"]
+    fcalls = [c for c in calls(rf, "func")]
+    if not pops:
+        claims = _claim_helper_calls(ctx, rf, fcalls)
+        if claims:
+            return _late_response_via_helper(ctx, rf, claims, fcalls)
     ctx.check(bool(pops), "late-response", rf, rf.node, "retrieve_cache claims the cache with request_cache.pop",
               "retrieve_cache no longer pops the cache: the same request can be answered twice and its timeout still fires")
     for p in pops:
-        tr = next((a for a in ancestors(p) if isinstance(a, ast.Try) and any(p is x for b in a.body for x in ast.walk(b))), None)
-        ok = tr is not None and any(chain(h.type) == "KeyError" and any(isinstance(s, ast.Return) and _is_none(s.value) for s in h.body)
-                                    for h in tr.handlers)
+        ok = _keyerror_path_ok(ctx, rf, p, fcalls)
         ctx.check(ok, "late-response", rf, p, "retrieve_cache: missing cache -> KeyError -> handler not called, returns None",
                   "a response without an outstanding request reaches the handler (or raises)")
         a0, a1 = arg(p, 0, "prefix"), arg(p, 1, "number")
-        ok2 = a0 is not None and a1 is not None and norm(resolve(rf, a0)) == "cache_class.name" and norm(resolve(rf, a1)) == "payload.identifier"
+        ok2 = a0 is not None and a1 is not None and norm(resolve(rf, a0)) == "cache_class.name" and _payload_identifier(rf, a1)
         ctx.check(ok2, "late-response", rf, p, "cache matched by (cache_class.name, payload.identifier)", "retrieve_cache matches on something else")
-    fcalls = [c for c in calls(rf, "func")]
     for c in fcalls:
         def popped(v) -> bool:
             if any(strip_cast(resolve(rf, v)) is p for p in pops):
@@ -552,10 +1487,201 @@ def rule_who(ctx: Ctx) -> None:
             return isinstance(v, ast.Name) and any(st is enclosing_stmt(p) and val is not None and strip_cast(val) is p
                                                    for st, val, _ in local_defs(rf, v.id) for p in pops)
         ok = any(k.arg == "cache" and popped(k.value) for k in c.keywords)
-        cfg = ctx.cfg(rf)
         pn = [n for p in pops for n in cfg.nodes_for(p)]
         ok = ok and all(cfg.must_complete(n, pn) for n in cfg.nodes_for(c))
         ctx.check(ok, "late-response", rf, c, "handler runs only after a successful pop, with the popped cache", "handler can run without a claimed cache")
+    _pop_census(ctx)
+
+
+def _retrieve_wrapper(ctx: Ctx) -> FuncInfo:
+    """the closure of retrieve_cache that runs per message: the reviewed name, else the innermost closure(s) under retrieve_cache"""
+    m = ctx.repo.module("ipv8/lazy_community.py")
+    named = [f for f in m.all_functions if f.qualname == "retrieve_cache.decorator.wrapper"]
+    if named:
+        return named[0]
+    inner = [f for f in m.all_functions if f.qualname.startswith("retrieve_cache.")
+             and not any(isinstance(x, (ast.FunctionDef, ast.AsyncFunctionDef)) and x is not f.node for x in ast.walk(f.node))]
+    ctx.anchor(len(inner) == 1, "function retrieve_cache.decorator.wrapper in ipv8/lazy_community.py")
+    return inner[0]
+
+
+def _payload_identifier(rf: FuncInfo, e: ast.AST) -> bool:
+    """e is `<payload>.identifier` where <payload> is taken from the wrapper's payload arguments"""
+    e = resolve(rf, e)
+    if not (isinstance(e, ast.Attribute) and e.attr == "identifier"):
+        return False
+    if norm(e.value) == "payload":
+        return True
+    var = rf.node.args.vararg.arg if rf.node.args.vararg else None
+    return var is not None and all(isinstance(x, ast.Subscript) and chain(x.value) == var for x in _value_leaves(rf, e.value))
+
+
+def _catching_handler(site: ast.AST, exc: tuple[str, ...] = ("KeyError", "LookupError", "Exception", "BaseException")) -> ast.ExceptHandler | None:
+    """the handler that receives a KeyError raised at site: innermost enclosing try (site in its body), first matching clause"""
+    cur = site
+    for a in ancestors(site):
+        if isinstance(a, ast.Try) and any(cur is b for b in a.body):
+            for h in a.handlers:
+                types = [None] if h.type is None else [chain(t) for t in (h.type.elts if isinstance(h.type, ast.Tuple) else [h.type])]
+                if any(t is None or t in exc or (t or "").split(".")[-1] in exc for t in types):
+                    return h
+        if isinstance(a, (ast.FunctionDef, ast.AsyncFunctionDef, ast.Lambda)):
+            return None
+        cur = a
+    return None
+
+
+def _none_after(ctx: Ctx, fi: FuncInfo, start_nodes: list, forbidden: list[ast.AST], quiet=None) -> bool:
+    """From start_nodes on: no forbidden call is reached, nothing is raised on purpose, and every return reached gives None
+    (or a value for which quiet(value) holds: "nothing was claimed").  A returned local has, besides such values, only
+    definitions that can neither precede nor follow start_nodes."""
+    def is_quiet(v) -> bool:
+        return _is_none(v) or (quiet is not None and v is not None and bool(quiet(v)))
+    cfg = ctx.cfg(fi)
+    r = cfg.reach(start_nodes)
+    if any(n in r for c in forbidden for n in cfg.nodes_for(c)):
+        return False
+    for n in r:
+        if isinstance(n.ast, ast.Raise) and n.kind == "stmt":
+            return False
+        if not (isinstance(n.ast, ast.Return) and n.kind == "stmt"):
+            continue
+        v = strip_cast(n.ast.value) if n.ast.value is not None else None
+        if is_quiet(v):
+            continue
+        if not isinstance(v, ast.Name) or v.id in fi.params():
+            return False
+        defs = local_defs(fi, v.id)
+        if not any(val is not None and idx is None and is_quiet(strip_cast(val)) for _, val, idx in defs):
+            return False
+        for st, val, idx in defs:
+            if val is not None and idx is None and is_quiet(strip_cast(val)):
+                continue
+            dn = cfg.nodes_for(st)
+            if any(d in r for d in dn) or any(s in cfg.reach(dn) for s in start_nodes):
+                return False
+    return True
+
+
+def _keyerror_path_ok(ctx: Ctx, fi: FuncInfo, p: ast.Call, forbidden: list[ast.AST], quiet=None) -> bool:
+    """A response whose cache is missing ends quietly: the KeyError of the pop is caught and that path returns None without
+    reaching the handler - or the pop is only reached when `<same receiver>.has(<same key>)` / `.get(..) is not None` holds,
+    and the other outcome of that test returns None without reaching the handler."""
+    cfg = ctx.cfg(fi)
+    h = _catching_handler(p)
+    if h is not None:
+        hn = [n for n in cfg.nodes_for(h) if n.kind == "handler"]
+        return bool(hn) and _none_after(ctx, fi, hn, forbidden, quiet)
+    if not isinstance(p.func, ast.Attribute):
+        return False
+    for f in _facts(fi, cfg, p):
+        t = resolve(fi, f.left)
+        registered = isinstance(t, ast.Call) and isinstance(t.func, ast.Attribute) and _same_value(fi, t.func.value, p.func.value) \
+            and len(t.args) == len(p.args) == 2 and not t.keywords and not p.keywords and all(_same_value(fi, x, y) for x, y in zip(t.args, p.args)) \
+            and ((t.func.attr == "has" and f.op == "truthy" and f.pos) or
+                 (t.func.attr == "get" and ((f.op == "truthy" and f.pos) or (f.op == "is" and not f.pos and _is_none(f.right)))))
+        if not registered:
+            continue
+        other = [v for n in cfg.nodes if n.kind == "cond" and n.ast is f.atom for v, lab in n.succ if lab is (not _edge_label(f))]
+        if other and _none_after(ctx, fi, other, forbidden, quiet):
+            return True
+    return False
+
+
+def _edge_label(f: Fact) -> bool:
+    """the outcome of evaluating f.atom under which the fact f holds"""
+    return fact_of(f.atom, True).pos == f.pos
+
+
+def _claim_helper_calls(ctx: Ctx, rf: FuncInfo, fcalls: list[ast.Call]) -> list[tuple[ast.Call, FuncInfo]]:
+    """calls in the wrapper to a helper (same module) that does the request_cache.pop"""
+    out = []
+    for c in calls(rf):
+        if c in fcalls:
+            continue
+        tg = [t for t in ctx.repo.resolve_call(rf, c) if isinstance(t, FuncInfo)]
+        if len(tg) == 1 and tg[0].module is rf.module and tg[0].node is not rf.node and any(call_name(x) == "pop" for x in calls(tg[0])):
+            out.append((c, tg[0]))
+    return out
+
+
+def _pop_results(fi: FuncInfo, e: ast.AST | None, pops: list[ast.Call]) -> bool:
+    """every value of e that is not None is the result of one of the pop calls"""
+    if e is None:
+        return False
+    leaves = [x for x in _value_leaves(fi, e) if not _is_none(x)]
+    return bool(leaves) and all(any(x is p for p in pops) for x in leaves)
+
+
+def _late_response_via_helper(ctx: Ctx, rf: FuncInfo, claims: list[tuple[ast.Call, FuncInfo]], fcalls: list[ast.Call]) -> None:
+    """The pop lives in a helper that reports the outcome (the claimed cache, or None after KeyError); the wrapper acts on it."""
+    cfg = ctx.cfg(rf)
+    good: list[ast.Call] = []
+    flagged: dict[int, tuple[int, int]] = {}          # claim call -> (index of the flag, index of the cache) in its result pair
+    for c, h in claims:
+        h = _view(ctx, h)
+        pops = [x for x in calls(h) if call_name(x) == "pop"]
+        b = _bind_call(c, h) or {}
+
+        def up(e, h=h, b=b) -> str:
+            # the helper's expression written in the wrapper's terms (its parameters replaced by the call's arguments)
+            e = resolve(h, e)
+            root = e
+            while isinstance(root, ast.Attribute):
+                root = root.value
+            if isinstance(root, ast.Name) and root.id in b and not local_defs(h, root.id):
+                return norm(resolve(rf, b[root.id])) + norm(e)[len(root.id):]
+            return norm(e)
+        # every value the helper returns is None or the cache it popped - or a (flag, cache) pair whose flag is True only
+        # together with the popped cache
+        rets = [r for r in walk_no_nested(h.node) if isinstance(r, ast.Return) and not _is_none(r.value)]
+        quiet = None
+        if pops and rets and all(_pop_results(h, r.value, pops) for r in rets):
+            good.append(c)
+        elif pops and rets and all(isinstance(strip_cast(r.value), ast.Tuple) and len(strip_cast(r.value).elts) == 2 for r in rets):
+            elts = [strip_cast(r.value).elts for r in rets]
+            for i, j in ((0, 1), (1, 0)):
+                if all(isinstance(const_value(e[i]), bool) for e in elts) and any(const_value(e[i]) is True for e in elts) and \
+                        all(_pop_results(h, e[j], pops) for e in elts if const_value(e[i]) is True):
+                    good.append(c)
+                    flagged[id(c)] = (i, j)
+
+                    def quiet(v, i=i) -> bool:
+                        return isinstance(v, ast.Tuple) and len(v.elts) == 2 and const_value(v.elts[i]) is False
+                    break
+        for p in pops:
+            ok = _keyerror_path_ok(ctx, h, p, [], quiet)
+            ctx.check(ok, "late-response", h, p, "retrieve_cache: missing cache -> KeyError -> handler not called, returns None",
+                      "a response without an outstanding request reaches the handler (or raises)")
+            a0, a1 = arg(p, 0, "prefix"), arg(p, 1, "number")
+            r1 = resolve(h, a1) if a1 is not None else None
+            ok2 = a0 is not None and up(a0) == "cache_class.name" and isinstance(r1, ast.Attribute) and r1.attr == "identifier"
+            ctx.check(ok2, "late-response", h, p, "cache matched by (cache_class.name, payload.identifier)", "retrieve_cache matches on something else")
+    ctx.check(bool(good), "late-response", rf, rf.node, "retrieve_cache claims the cache with request_cache.pop",
+              "retrieve_cache no longer pops the cache: the same request can be answered twice and its timeout still fires")
+    for c in fcalls:
+        fs = _facts(rf, cfg, c)
+        ok = False
+        for k in c.keywords:
+            if k.arg != "cache":
+                continue
+            from_claim = _pop_results(rf, k.value, [g for g in good if id(g) not in flagged])
+            claimed = any((f.op == "is" and not f.pos and _is_none(f.right) and _same_value(rf, f.left, k.value))
+                          or (f.op == "truthy" and f.pos and _same_value(rf, f.left, k.value)) for f in fs)
+            ok = ok or (from_claim and claimed)
+            # `found, cache = helper(..)`: the cache component, used where the flag component is known to be true
+            d = local_defs(rf, k.value.id) if isinstance(k.value, ast.Name) else []
+            if len(d) == 1 and d[0][1] is not None and id(strip_cast(d[0][1])) in flagged and d[0][2] == flagged[id(strip_cast(d[0][1]))][1]:
+                fi_, _ = flagged[id(strip_cast(d[0][1]))]
+                flags = [x.id for x in ast.walk(d[0][0]) if isinstance(x, ast.Name) and isinstance(x.ctx, ast.Store)
+                         and [(st, idx) for st, _, idx in local_defs(rf, x.id)] == [(d[0][0], fi_)]]
+                ok = ok or any(f.op == "truthy" and f.pos and isinstance(f.left, ast.Name) and f.left.id in flags for f in fs)
+        ctx.check(ok, "late-response", rf, c, "handler runs only after a successful pop, with the popped cache", "handler can run without a claimed cache")
+    _pop_census(ctx)
+
+
+def _pop_census(ctx: Ctx) -> None:
+    repo = ctx.repo
     # informative census of request_cache.pop sites
     census = {"guarded-by-has/get": 0, "try-keyerror": 0, "in-handler-or-callback": 0}
     for m, fi, c in repo.callers_of_name("pop"):
@@ -604,6 +1730,10 @@ WITNESSES = [
     {"name": "duplicate identifier overwrites", "file": RC, "rule": "add-gates",
      "old": "                self._logger.error(\"add with duplicate identifier \\\"%s\\\"\", identifier)\n                return None\n",
      "new": "                self._logger.error(\"add with duplicate identifier \\\"%s\\\"\", identifier)\n"},
+    {"name": "duplicate add cancels the offered cache's futures", "file": RC, "rule": "add-gates",
+     "old": "                self._logger.error(\"add with duplicate identifier \\\"%s\\\"\", identifier)\n                return None\n",
+     "new": "                self._logger.error(\"add with duplicate identifier \\\"%s\\\"\", identifier)\n                for f, _ in cache.managed_futures:\n"
+            "                    f.cancel()\n                return None\n"},
     {"name": "timeout task only for overridden caches", "file": RC, "rule": "add-gates",
      "old": "            self.register_task(cache, self._on_timeout, cache, delay=timeout_delay)\n",
      "new": "            if timeout_delay < 3600:\n                self.register_task(cache, self._on_timeout, cache, delay=timeout_delay)\n"},
